@@ -1,5 +1,6 @@
 import Uhppote.Model.Api
 import Uhppote.Gen.Ops
+import Uhppote.Gen.Status
 import Uhppote.Spec.Api
 import Uhppote.Gen.Messages
 import Uhppote.Props.C01
@@ -77,7 +78,7 @@ theorem C02_status_event_absent (args : List Arg) (r : List Val) (h : r[2]? = so
       .vals (pre ++ [.u32 0, .u8 0, .bool false, .u8 0, .u8 0, .u32 0, .dateTime none, .u8 0]) ∧ pre.length = 15 := by
   rw [status_op]
   have : r.getD 2 .none_ = .u32 0 := by simp [h]
-  simp only [statusResult, this]
+  simp only [statusResult, statusEventOf, statusNoEvent, this]
   exact ⟨[_, _, _, _, _, _, _, _, _, _, _, _, _, _, _], rfl, rfl⟩
 
 theorem C02_status_event_present (args : List Arg) (r : List Val) (n : Nat) (h : r[2]? = some (.u32 n)) (hn : n ≠ 0) :
@@ -89,7 +90,7 @@ theorem C02_status_event_present (args : List Arg) (r : List Val) (n : Nat) (h :
   cases n with
   | zero => exact absurd rfl hn
   | succ k =>
-    simp only [statusResult, this]
+    simp only [statusResult, statusEventOf, statusNoEvent, this]
     exact ⟨[_, _, _, _, _, _, _, _, _, _, _, _, _, _, _], rfl, rfl⟩
 
 /-! ### a field outside its domain is never reported as a different in-domain value -/
@@ -207,43 +208,43 @@ theorem C02_result_positional : ∀ op ∈ ops, InterpretsSpec op := by
     intro args r hlen hsys
     simp only [Layout.names, Field.names, List.flatMap_cons, List.flatMap_nil, List.append_nil, List.cons_append, List.nil_append, List.length_cons, List.length_nil, Spec.Protocol.ActivateAccessKeypadsResponse, Spec.Protocol.AddTaskResponse, Spec.Protocol.ClearTaskListResponse, Spec.Protocol.ClearTimeProfilesResponse, Spec.Protocol.DeleteCardResponse, Spec.Protocol.DeleteCardsResponse, Spec.Protocol.GetCardByIDResponse, Spec.Protocol.GetCardByIndexResponse, Spec.Protocol.GetCardsResponse, Spec.Protocol.GetDeviceResponse, Spec.Protocol.GetDoorControlStateResponse, Spec.Protocol.GetEventIndexResponse, Spec.Protocol.GetEventResponse, Spec.Protocol.GetListenerResponse, Spec.Protocol.GetStatusResponse, Spec.Protocol.GetTimeProfileResponse, Spec.Protocol.GetTimeResponse, Spec.Protocol.OpenDoorResponse, Spec.Protocol.PutCardResponse, Spec.Protocol.RecordSpecialEventsResponse, Spec.Protocol.RefreshTaskListResponse, Spec.Protocol.RestoreDefaultParametersResponse, Spec.Protocol.SetDoorControlStateResponse, Spec.Protocol.SetDoorPasscodesResponse, Spec.Protocol.SetEventIndexResponse, Spec.Protocol.SetFirstCardResponse, Spec.Protocol.SetInterlockResponse, Spec.Protocol.SetListenerResponse, Spec.Protocol.SetPCControlResponse, Spec.Protocol.SetTimeProfileResponse, Spec.Protocol.SetTimeResponse] at hlen
     rcases r with _ | ⟨x0, _ | ⟨x1, _ | ⟨x2, _ | ⟨x3, _ | ⟨x4, _ | ⟨x5, _ | ⟨x6, _ | ⟨x7, _ | ⟨y, r⟩⟩⟩⟩⟩⟩⟩⟩⟩ <;> simp at hlen
-    simp [List.lookup, Spec.Api.get, Spec.Api.succeeded, Spec.Api.card, okBool, cardResult, Spec.Api.simple, C01.v_val, Layout.names, Field.names, statusResult, Spec.Api.status, Spec.Protocol.ActivateAccessKeypadsResponse, Spec.Protocol.AddTaskResponse, Spec.Protocol.ClearTaskListResponse, Spec.Protocol.ClearTimeProfilesResponse, Spec.Protocol.DeleteCardResponse, Spec.Protocol.DeleteCardsResponse, Spec.Protocol.GetCardByIDResponse, Spec.Protocol.GetCardByIndexResponse, Spec.Protocol.GetCardsResponse, Spec.Protocol.GetDeviceResponse, Spec.Protocol.GetDoorControlStateResponse, Spec.Protocol.GetEventIndexResponse, Spec.Protocol.GetEventResponse, Spec.Protocol.GetListenerResponse, Spec.Protocol.GetStatusResponse, Spec.Protocol.GetTimeProfileResponse, Spec.Protocol.GetTimeResponse, Spec.Protocol.OpenDoorResponse, Spec.Protocol.PutCardResponse, Spec.Protocol.RecordSpecialEventsResponse, Spec.Protocol.RefreshTaskListResponse, Spec.Protocol.RestoreDefaultParametersResponse, Spec.Protocol.SetDoorControlStateResponse, Spec.Protocol.SetDoorPasscodesResponse, Spec.Protocol.SetEventIndexResponse, Spec.Protocol.SetFirstCardResponse, Spec.Protocol.SetInterlockResponse, Spec.Protocol.SetListenerResponse, Spec.Protocol.SetPCControlResponse, Spec.Protocol.SetTimeProfileResponse, Spec.Protocol.SetTimeResponse]
+    simp [List.lookup, Spec.Api.get, Spec.Api.succeeded, Spec.Api.card, okBool, cardResult, Spec.Api.simple, C01.v_val, Layout.names, Field.names, statusResult, statusEventOf, statusNoEvent, Spec.Api.status, Spec.Protocol.ActivateAccessKeypadsResponse, Spec.Protocol.AddTaskResponse, Spec.Protocol.ClearTaskListResponse, Spec.Protocol.ClearTimeProfilesResponse, Spec.Protocol.DeleteCardResponse, Spec.Protocol.DeleteCardsResponse, Spec.Protocol.GetCardByIDResponse, Spec.Protocol.GetCardByIndexResponse, Spec.Protocol.GetCardsResponse, Spec.Protocol.GetDeviceResponse, Spec.Protocol.GetDoorControlStateResponse, Spec.Protocol.GetEventIndexResponse, Spec.Protocol.GetEventResponse, Spec.Protocol.GetListenerResponse, Spec.Protocol.GetStatusResponse, Spec.Protocol.GetTimeProfileResponse, Spec.Protocol.GetTimeResponse, Spec.Protocol.OpenDoorResponse, Spec.Protocol.PutCardResponse, Spec.Protocol.RecordSpecialEventsResponse, Spec.Protocol.RefreshTaskListResponse, Spec.Protocol.RestoreDefaultParametersResponse, Spec.Protocol.SetDoorControlStateResponse, Spec.Protocol.SetDoorPasscodesResponse, Spec.Protocol.SetEventIndexResponse, Spec.Protocol.SetFirstCardResponse, Spec.Protocol.SetInterlockResponse, Spec.Protocol.SetListenerResponse, Spec.Protocol.SetPCControlResponse, Spec.Protocol.SetTimeProfileResponse, Spec.Protocol.SetTimeResponse]
   · intro args r fs; rfl
   · refine ⟨_, rfl, ?_⟩
     intro args r hlen hsys
     simp only [Layout.names, Field.names, List.flatMap_cons, List.flatMap_nil, List.append_nil, List.cons_append, List.nil_append, List.length_cons, List.length_nil, Spec.Protocol.ActivateAccessKeypadsResponse, Spec.Protocol.AddTaskResponse, Spec.Protocol.ClearTaskListResponse, Spec.Protocol.ClearTimeProfilesResponse, Spec.Protocol.DeleteCardResponse, Spec.Protocol.DeleteCardsResponse, Spec.Protocol.GetCardByIDResponse, Spec.Protocol.GetCardByIndexResponse, Spec.Protocol.GetCardsResponse, Spec.Protocol.GetDeviceResponse, Spec.Protocol.GetDoorControlStateResponse, Spec.Protocol.GetEventIndexResponse, Spec.Protocol.GetEventResponse, Spec.Protocol.GetListenerResponse, Spec.Protocol.GetStatusResponse, Spec.Protocol.GetTimeProfileResponse, Spec.Protocol.GetTimeResponse, Spec.Protocol.OpenDoorResponse, Spec.Protocol.PutCardResponse, Spec.Protocol.RecordSpecialEventsResponse, Spec.Protocol.RefreshTaskListResponse, Spec.Protocol.RestoreDefaultParametersResponse, Spec.Protocol.SetDoorControlStateResponse, Spec.Protocol.SetDoorPasscodesResponse, Spec.Protocol.SetEventIndexResponse, Spec.Protocol.SetFirstCardResponse, Spec.Protocol.SetInterlockResponse, Spec.Protocol.SetListenerResponse, Spec.Protocol.SetPCControlResponse, Spec.Protocol.SetTimeProfileResponse, Spec.Protocol.SetTimeResponse] at hlen
     rcases r with _ | ⟨x0, _ | ⟨x1, _ | ⟨x2, _ | ⟨x3, _ | ⟨y, r⟩⟩⟩⟩⟩ <;> simp at hlen
-    simp [List.lookup, Spec.Api.get, Spec.Api.succeeded, Spec.Api.card, okBool, cardResult, Spec.Api.simple, C01.v_val, Layout.names, Field.names, statusResult, Spec.Api.status, Spec.Protocol.ActivateAccessKeypadsResponse, Spec.Protocol.AddTaskResponse, Spec.Protocol.ClearTaskListResponse, Spec.Protocol.ClearTimeProfilesResponse, Spec.Protocol.DeleteCardResponse, Spec.Protocol.DeleteCardsResponse, Spec.Protocol.GetCardByIDResponse, Spec.Protocol.GetCardByIndexResponse, Spec.Protocol.GetCardsResponse, Spec.Protocol.GetDeviceResponse, Spec.Protocol.GetDoorControlStateResponse, Spec.Protocol.GetEventIndexResponse, Spec.Protocol.GetEventResponse, Spec.Protocol.GetListenerResponse, Spec.Protocol.GetStatusResponse, Spec.Protocol.GetTimeProfileResponse, Spec.Protocol.GetTimeResponse, Spec.Protocol.OpenDoorResponse, Spec.Protocol.PutCardResponse, Spec.Protocol.RecordSpecialEventsResponse, Spec.Protocol.RefreshTaskListResponse, Spec.Protocol.RestoreDefaultParametersResponse, Spec.Protocol.SetDoorControlStateResponse, Spec.Protocol.SetDoorPasscodesResponse, Spec.Protocol.SetEventIndexResponse, Spec.Protocol.SetFirstCardResponse, Spec.Protocol.SetInterlockResponse, Spec.Protocol.SetListenerResponse, Spec.Protocol.SetPCControlResponse, Spec.Protocol.SetTimeProfileResponse, Spec.Protocol.SetTimeResponse]
+    simp [List.lookup, Spec.Api.get, Spec.Api.succeeded, Spec.Api.card, okBool, cardResult, Spec.Api.simple, C01.v_val, Layout.names, Field.names, statusResult, statusEventOf, statusNoEvent, Spec.Api.status, Spec.Protocol.ActivateAccessKeypadsResponse, Spec.Protocol.AddTaskResponse, Spec.Protocol.ClearTaskListResponse, Spec.Protocol.ClearTimeProfilesResponse, Spec.Protocol.DeleteCardResponse, Spec.Protocol.DeleteCardsResponse, Spec.Protocol.GetCardByIDResponse, Spec.Protocol.GetCardByIndexResponse, Spec.Protocol.GetCardsResponse, Spec.Protocol.GetDeviceResponse, Spec.Protocol.GetDoorControlStateResponse, Spec.Protocol.GetEventIndexResponse, Spec.Protocol.GetEventResponse, Spec.Protocol.GetListenerResponse, Spec.Protocol.GetStatusResponse, Spec.Protocol.GetTimeProfileResponse, Spec.Protocol.GetTimeResponse, Spec.Protocol.OpenDoorResponse, Spec.Protocol.PutCardResponse, Spec.Protocol.RecordSpecialEventsResponse, Spec.Protocol.RefreshTaskListResponse, Spec.Protocol.RestoreDefaultParametersResponse, Spec.Protocol.SetDoorControlStateResponse, Spec.Protocol.SetDoorPasscodesResponse, Spec.Protocol.SetEventIndexResponse, Spec.Protocol.SetFirstCardResponse, Spec.Protocol.SetInterlockResponse, Spec.Protocol.SetListenerResponse, Spec.Protocol.SetPCControlResponse, Spec.Protocol.SetTimeProfileResponse, Spec.Protocol.SetTimeResponse]
   · refine ⟨_, rfl, ?_⟩
     intro args r hlen hsys
     simp only [Layout.names, Field.names, List.flatMap_cons, List.flatMap_nil, List.append_nil, List.cons_append, List.nil_append, List.length_cons, List.length_nil, Spec.Protocol.ActivateAccessKeypadsResponse, Spec.Protocol.AddTaskResponse, Spec.Protocol.ClearTaskListResponse, Spec.Protocol.ClearTimeProfilesResponse, Spec.Protocol.DeleteCardResponse, Spec.Protocol.DeleteCardsResponse, Spec.Protocol.GetCardByIDResponse, Spec.Protocol.GetCardByIndexResponse, Spec.Protocol.GetCardsResponse, Spec.Protocol.GetDeviceResponse, Spec.Protocol.GetDoorControlStateResponse, Spec.Protocol.GetEventIndexResponse, Spec.Protocol.GetEventResponse, Spec.Protocol.GetListenerResponse, Spec.Protocol.GetStatusResponse, Spec.Protocol.GetTimeProfileResponse, Spec.Protocol.GetTimeResponse, Spec.Protocol.OpenDoorResponse, Spec.Protocol.PutCardResponse, Spec.Protocol.RecordSpecialEventsResponse, Spec.Protocol.RefreshTaskListResponse, Spec.Protocol.RestoreDefaultParametersResponse, Spec.Protocol.SetDoorControlStateResponse, Spec.Protocol.SetDoorPasscodesResponse, Spec.Protocol.SetEventIndexResponse, Spec.Protocol.SetFirstCardResponse, Spec.Protocol.SetInterlockResponse, Spec.Protocol.SetListenerResponse, Spec.Protocol.SetPCControlResponse, Spec.Protocol.SetTimeProfileResponse, Spec.Protocol.SetTimeResponse] at hlen
     rcases r with _ | ⟨x0, _ | ⟨x1, _ | ⟨x2, _ | ⟨y, r⟩⟩⟩⟩ <;> simp at hlen
-    simp [List.lookup, Spec.Api.get, Spec.Api.succeeded, Spec.Api.card, okBool, cardResult, Spec.Api.simple, C01.v_val, Layout.names, Field.names, statusResult, Spec.Api.status, Spec.Protocol.ActivateAccessKeypadsResponse, Spec.Protocol.AddTaskResponse, Spec.Protocol.ClearTaskListResponse, Spec.Protocol.ClearTimeProfilesResponse, Spec.Protocol.DeleteCardResponse, Spec.Protocol.DeleteCardsResponse, Spec.Protocol.GetCardByIDResponse, Spec.Protocol.GetCardByIndexResponse, Spec.Protocol.GetCardsResponse, Spec.Protocol.GetDeviceResponse, Spec.Protocol.GetDoorControlStateResponse, Spec.Protocol.GetEventIndexResponse, Spec.Protocol.GetEventResponse, Spec.Protocol.GetListenerResponse, Spec.Protocol.GetStatusResponse, Spec.Protocol.GetTimeProfileResponse, Spec.Protocol.GetTimeResponse, Spec.Protocol.OpenDoorResponse, Spec.Protocol.PutCardResponse, Spec.Protocol.RecordSpecialEventsResponse, Spec.Protocol.RefreshTaskListResponse, Spec.Protocol.RestoreDefaultParametersResponse, Spec.Protocol.SetDoorControlStateResponse, Spec.Protocol.SetDoorPasscodesResponse, Spec.Protocol.SetEventIndexResponse, Spec.Protocol.SetFirstCardResponse, Spec.Protocol.SetInterlockResponse, Spec.Protocol.SetListenerResponse, Spec.Protocol.SetPCControlResponse, Spec.Protocol.SetTimeProfileResponse, Spec.Protocol.SetTimeResponse]
+    simp [List.lookup, Spec.Api.get, Spec.Api.succeeded, Spec.Api.card, okBool, cardResult, Spec.Api.simple, C01.v_val, Layout.names, Field.names, statusResult, statusEventOf, statusNoEvent, Spec.Api.status, Spec.Protocol.ActivateAccessKeypadsResponse, Spec.Protocol.AddTaskResponse, Spec.Protocol.ClearTaskListResponse, Spec.Protocol.ClearTimeProfilesResponse, Spec.Protocol.DeleteCardResponse, Spec.Protocol.DeleteCardsResponse, Spec.Protocol.GetCardByIDResponse, Spec.Protocol.GetCardByIndexResponse, Spec.Protocol.GetCardsResponse, Spec.Protocol.GetDeviceResponse, Spec.Protocol.GetDoorControlStateResponse, Spec.Protocol.GetEventIndexResponse, Spec.Protocol.GetEventResponse, Spec.Protocol.GetListenerResponse, Spec.Protocol.GetStatusResponse, Spec.Protocol.GetTimeProfileResponse, Spec.Protocol.GetTimeResponse, Spec.Protocol.OpenDoorResponse, Spec.Protocol.PutCardResponse, Spec.Protocol.RecordSpecialEventsResponse, Spec.Protocol.RefreshTaskListResponse, Spec.Protocol.RestoreDefaultParametersResponse, Spec.Protocol.SetDoorControlStateResponse, Spec.Protocol.SetDoorPasscodesResponse, Spec.Protocol.SetEventIndexResponse, Spec.Protocol.SetFirstCardResponse, Spec.Protocol.SetInterlockResponse, Spec.Protocol.SetListenerResponse, Spec.Protocol.SetPCControlResponse, Spec.Protocol.SetTimeProfileResponse, Spec.Protocol.SetTimeResponse]
   · refine ⟨_, rfl, ?_⟩
     intro args r hlen hsys
     simp only [Layout.names, Field.names, List.flatMap_cons, List.flatMap_nil, List.append_nil, List.cons_append, List.nil_append, List.length_cons, List.length_nil, Spec.Protocol.ActivateAccessKeypadsResponse, Spec.Protocol.AddTaskResponse, Spec.Protocol.ClearTaskListResponse, Spec.Protocol.ClearTimeProfilesResponse, Spec.Protocol.DeleteCardResponse, Spec.Protocol.DeleteCardsResponse, Spec.Protocol.GetCardByIDResponse, Spec.Protocol.GetCardByIndexResponse, Spec.Protocol.GetCardsResponse, Spec.Protocol.GetDeviceResponse, Spec.Protocol.GetDoorControlStateResponse, Spec.Protocol.GetEventIndexResponse, Spec.Protocol.GetEventResponse, Spec.Protocol.GetListenerResponse, Spec.Protocol.GetStatusResponse, Spec.Protocol.GetTimeProfileResponse, Spec.Protocol.GetTimeResponse, Spec.Protocol.OpenDoorResponse, Spec.Protocol.PutCardResponse, Spec.Protocol.RecordSpecialEventsResponse, Spec.Protocol.RefreshTaskListResponse, Spec.Protocol.RestoreDefaultParametersResponse, Spec.Protocol.SetDoorControlStateResponse, Spec.Protocol.SetDoorPasscodesResponse, Spec.Protocol.SetEventIndexResponse, Spec.Protocol.SetFirstCardResponse, Spec.Protocol.SetInterlockResponse, Spec.Protocol.SetListenerResponse, Spec.Protocol.SetPCControlResponse, Spec.Protocol.SetTimeProfileResponse, Spec.Protocol.SetTimeResponse] at hlen
     rcases r with _ | ⟨x0, _ | ⟨x1, _ | ⟨x2, _ | ⟨y, r⟩⟩⟩⟩ <;> simp at hlen
-    simp [List.lookup, Spec.Api.get, Spec.Api.succeeded, Spec.Api.card, okBool, cardResult, Spec.Api.simple, C01.v_val, Layout.names, Field.names, statusResult, Spec.Api.status, Spec.Protocol.ActivateAccessKeypadsResponse, Spec.Protocol.AddTaskResponse, Spec.Protocol.ClearTaskListResponse, Spec.Protocol.ClearTimeProfilesResponse, Spec.Protocol.DeleteCardResponse, Spec.Protocol.DeleteCardsResponse, Spec.Protocol.GetCardByIDResponse, Spec.Protocol.GetCardByIndexResponse, Spec.Protocol.GetCardsResponse, Spec.Protocol.GetDeviceResponse, Spec.Protocol.GetDoorControlStateResponse, Spec.Protocol.GetEventIndexResponse, Spec.Protocol.GetEventResponse, Spec.Protocol.GetListenerResponse, Spec.Protocol.GetStatusResponse, Spec.Protocol.GetTimeProfileResponse, Spec.Protocol.GetTimeResponse, Spec.Protocol.OpenDoorResponse, Spec.Protocol.PutCardResponse, Spec.Protocol.RecordSpecialEventsResponse, Spec.Protocol.RefreshTaskListResponse, Spec.Protocol.RestoreDefaultParametersResponse, Spec.Protocol.SetDoorControlStateResponse, Spec.Protocol.SetDoorPasscodesResponse, Spec.Protocol.SetEventIndexResponse, Spec.Protocol.SetFirstCardResponse, Spec.Protocol.SetInterlockResponse, Spec.Protocol.SetListenerResponse, Spec.Protocol.SetPCControlResponse, Spec.Protocol.SetTimeProfileResponse, Spec.Protocol.SetTimeResponse]
+    simp [List.lookup, Spec.Api.get, Spec.Api.succeeded, Spec.Api.card, okBool, cardResult, Spec.Api.simple, C01.v_val, Layout.names, Field.names, statusResult, statusEventOf, statusNoEvent, Spec.Api.status, Spec.Protocol.ActivateAccessKeypadsResponse, Spec.Protocol.AddTaskResponse, Spec.Protocol.ClearTaskListResponse, Spec.Protocol.ClearTimeProfilesResponse, Spec.Protocol.DeleteCardResponse, Spec.Protocol.DeleteCardsResponse, Spec.Protocol.GetCardByIDResponse, Spec.Protocol.GetCardByIndexResponse, Spec.Protocol.GetCardsResponse, Spec.Protocol.GetDeviceResponse, Spec.Protocol.GetDoorControlStateResponse, Spec.Protocol.GetEventIndexResponse, Spec.Protocol.GetEventResponse, Spec.Protocol.GetListenerResponse, Spec.Protocol.GetStatusResponse, Spec.Protocol.GetTimeProfileResponse, Spec.Protocol.GetTimeResponse, Spec.Protocol.OpenDoorResponse, Spec.Protocol.PutCardResponse, Spec.Protocol.RecordSpecialEventsResponse, Spec.Protocol.RefreshTaskListResponse, Spec.Protocol.RestoreDefaultParametersResponse, Spec.Protocol.SetDoorControlStateResponse, Spec.Protocol.SetDoorPasscodesResponse, Spec.Protocol.SetEventIndexResponse, Spec.Protocol.SetFirstCardResponse, Spec.Protocol.SetInterlockResponse, Spec.Protocol.SetListenerResponse, Spec.Protocol.SetPCControlResponse, Spec.Protocol.SetTimeProfileResponse, Spec.Protocol.SetTimeResponse]
   · refine ⟨_, rfl, ?_⟩
     intro args r hlen hsys
     simp only [Layout.names, Field.names, List.flatMap_cons, List.flatMap_nil, List.append_nil, List.cons_append, List.nil_append, List.length_cons, List.length_nil, Spec.Protocol.ActivateAccessKeypadsResponse, Spec.Protocol.AddTaskResponse, Spec.Protocol.ClearTaskListResponse, Spec.Protocol.ClearTimeProfilesResponse, Spec.Protocol.DeleteCardResponse, Spec.Protocol.DeleteCardsResponse, Spec.Protocol.GetCardByIDResponse, Spec.Protocol.GetCardByIndexResponse, Spec.Protocol.GetCardsResponse, Spec.Protocol.GetDeviceResponse, Spec.Protocol.GetDoorControlStateResponse, Spec.Protocol.GetEventIndexResponse, Spec.Protocol.GetEventResponse, Spec.Protocol.GetListenerResponse, Spec.Protocol.GetStatusResponse, Spec.Protocol.GetTimeProfileResponse, Spec.Protocol.GetTimeResponse, Spec.Protocol.OpenDoorResponse, Spec.Protocol.PutCardResponse, Spec.Protocol.RecordSpecialEventsResponse, Spec.Protocol.RefreshTaskListResponse, Spec.Protocol.RestoreDefaultParametersResponse, Spec.Protocol.SetDoorControlStateResponse, Spec.Protocol.SetDoorPasscodesResponse, Spec.Protocol.SetEventIndexResponse, Spec.Protocol.SetFirstCardResponse, Spec.Protocol.SetInterlockResponse, Spec.Protocol.SetListenerResponse, Spec.Protocol.SetPCControlResponse, Spec.Protocol.SetTimeProfileResponse, Spec.Protocol.SetTimeResponse] at hlen
     rcases r with _ | ⟨x0, _ | ⟨x1, _ | ⟨x2, _ | ⟨y, r⟩⟩⟩⟩ <;> simp at hlen
-    simp [List.lookup, Spec.Api.get, Spec.Api.succeeded, Spec.Api.card, okBool, cardResult, Spec.Api.simple, C01.v_val, Layout.names, Field.names, statusResult, Spec.Api.status, Spec.Protocol.ActivateAccessKeypadsResponse, Spec.Protocol.AddTaskResponse, Spec.Protocol.ClearTaskListResponse, Spec.Protocol.ClearTimeProfilesResponse, Spec.Protocol.DeleteCardResponse, Spec.Protocol.DeleteCardsResponse, Spec.Protocol.GetCardByIDResponse, Spec.Protocol.GetCardByIndexResponse, Spec.Protocol.GetCardsResponse, Spec.Protocol.GetDeviceResponse, Spec.Protocol.GetDoorControlStateResponse, Spec.Protocol.GetEventIndexResponse, Spec.Protocol.GetEventResponse, Spec.Protocol.GetListenerResponse, Spec.Protocol.GetStatusResponse, Spec.Protocol.GetTimeProfileResponse, Spec.Protocol.GetTimeResponse, Spec.Protocol.OpenDoorResponse, Spec.Protocol.PutCardResponse, Spec.Protocol.RecordSpecialEventsResponse, Spec.Protocol.RefreshTaskListResponse, Spec.Protocol.RestoreDefaultParametersResponse, Spec.Protocol.SetDoorControlStateResponse, Spec.Protocol.SetDoorPasscodesResponse, Spec.Protocol.SetEventIndexResponse, Spec.Protocol.SetFirstCardResponse, Spec.Protocol.SetInterlockResponse, Spec.Protocol.SetListenerResponse, Spec.Protocol.SetPCControlResponse, Spec.Protocol.SetTimeProfileResponse, Spec.Protocol.SetTimeResponse]
+    simp [List.lookup, Spec.Api.get, Spec.Api.succeeded, Spec.Api.card, okBool, cardResult, Spec.Api.simple, C01.v_val, Layout.names, Field.names, statusResult, statusEventOf, statusNoEvent, Spec.Api.status, Spec.Protocol.ActivateAccessKeypadsResponse, Spec.Protocol.AddTaskResponse, Spec.Protocol.ClearTaskListResponse, Spec.Protocol.ClearTimeProfilesResponse, Spec.Protocol.DeleteCardResponse, Spec.Protocol.DeleteCardsResponse, Spec.Protocol.GetCardByIDResponse, Spec.Protocol.GetCardByIndexResponse, Spec.Protocol.GetCardsResponse, Spec.Protocol.GetDeviceResponse, Spec.Protocol.GetDoorControlStateResponse, Spec.Protocol.GetEventIndexResponse, Spec.Protocol.GetEventResponse, Spec.Protocol.GetListenerResponse, Spec.Protocol.GetStatusResponse, Spec.Protocol.GetTimeProfileResponse, Spec.Protocol.GetTimeResponse, Spec.Protocol.OpenDoorResponse, Spec.Protocol.PutCardResponse, Spec.Protocol.RecordSpecialEventsResponse, Spec.Protocol.RefreshTaskListResponse, Spec.Protocol.RestoreDefaultParametersResponse, Spec.Protocol.SetDoorControlStateResponse, Spec.Protocol.SetDoorPasscodesResponse, Spec.Protocol.SetEventIndexResponse, Spec.Protocol.SetFirstCardResponse, Spec.Protocol.SetInterlockResponse, Spec.Protocol.SetListenerResponse, Spec.Protocol.SetPCControlResponse, Spec.Protocol.SetTimeProfileResponse, Spec.Protocol.SetTimeResponse]
   · refine ⟨_, rfl, ?_⟩
     intro args r hlen hsys
     simp only [Layout.names, Field.names, List.flatMap_cons, List.flatMap_nil, List.append_nil, List.cons_append, List.nil_append, List.length_cons, List.length_nil, Spec.Protocol.ActivateAccessKeypadsResponse, Spec.Protocol.AddTaskResponse, Spec.Protocol.ClearTaskListResponse, Spec.Protocol.ClearTimeProfilesResponse, Spec.Protocol.DeleteCardResponse, Spec.Protocol.DeleteCardsResponse, Spec.Protocol.GetCardByIDResponse, Spec.Protocol.GetCardByIndexResponse, Spec.Protocol.GetCardsResponse, Spec.Protocol.GetDeviceResponse, Spec.Protocol.GetDoorControlStateResponse, Spec.Protocol.GetEventIndexResponse, Spec.Protocol.GetEventResponse, Spec.Protocol.GetListenerResponse, Spec.Protocol.GetStatusResponse, Spec.Protocol.GetTimeProfileResponse, Spec.Protocol.GetTimeResponse, Spec.Protocol.OpenDoorResponse, Spec.Protocol.PutCardResponse, Spec.Protocol.RecordSpecialEventsResponse, Spec.Protocol.RefreshTaskListResponse, Spec.Protocol.RestoreDefaultParametersResponse, Spec.Protocol.SetDoorControlStateResponse, Spec.Protocol.SetDoorPasscodesResponse, Spec.Protocol.SetEventIndexResponse, Spec.Protocol.SetFirstCardResponse, Spec.Protocol.SetInterlockResponse, Spec.Protocol.SetListenerResponse, Spec.Protocol.SetPCControlResponse, Spec.Protocol.SetTimeProfileResponse, Spec.Protocol.SetTimeResponse] at hlen
     rcases r with _ | ⟨x0, _ | ⟨x1, _ | ⟨x2, _ | ⟨x3, _ | ⟨x4, _ | ⟨y, r⟩⟩⟩⟩⟩⟩ <;> simp at hlen
-    simp [List.lookup, Spec.Api.get, Spec.Api.succeeded, Spec.Api.card, okBool, cardResult, Spec.Api.simple, C01.v_val, Layout.names, Field.names, statusResult, Spec.Api.status, Spec.Protocol.ActivateAccessKeypadsResponse, Spec.Protocol.AddTaskResponse, Spec.Protocol.ClearTaskListResponse, Spec.Protocol.ClearTimeProfilesResponse, Spec.Protocol.DeleteCardResponse, Spec.Protocol.DeleteCardsResponse, Spec.Protocol.GetCardByIDResponse, Spec.Protocol.GetCardByIndexResponse, Spec.Protocol.GetCardsResponse, Spec.Protocol.GetDeviceResponse, Spec.Protocol.GetDoorControlStateResponse, Spec.Protocol.GetEventIndexResponse, Spec.Protocol.GetEventResponse, Spec.Protocol.GetListenerResponse, Spec.Protocol.GetStatusResponse, Spec.Protocol.GetTimeProfileResponse, Spec.Protocol.GetTimeResponse, Spec.Protocol.OpenDoorResponse, Spec.Protocol.PutCardResponse, Spec.Protocol.RecordSpecialEventsResponse, Spec.Protocol.RefreshTaskListResponse, Spec.Protocol.RestoreDefaultParametersResponse, Spec.Protocol.SetDoorControlStateResponse, Spec.Protocol.SetDoorPasscodesResponse, Spec.Protocol.SetEventIndexResponse, Spec.Protocol.SetFirstCardResponse, Spec.Protocol.SetInterlockResponse, Spec.Protocol.SetListenerResponse, Spec.Protocol.SetPCControlResponse, Spec.Protocol.SetTimeProfileResponse, Spec.Protocol.SetTimeResponse]
+    simp [List.lookup, Spec.Api.get, Spec.Api.succeeded, Spec.Api.card, okBool, cardResult, Spec.Api.simple, C01.v_val, Layout.names, Field.names, statusResult, statusEventOf, statusNoEvent, Spec.Api.status, Spec.Protocol.ActivateAccessKeypadsResponse, Spec.Protocol.AddTaskResponse, Spec.Protocol.ClearTaskListResponse, Spec.Protocol.ClearTimeProfilesResponse, Spec.Protocol.DeleteCardResponse, Spec.Protocol.DeleteCardsResponse, Spec.Protocol.GetCardByIDResponse, Spec.Protocol.GetCardByIndexResponse, Spec.Protocol.GetCardsResponse, Spec.Protocol.GetDeviceResponse, Spec.Protocol.GetDoorControlStateResponse, Spec.Protocol.GetEventIndexResponse, Spec.Protocol.GetEventResponse, Spec.Protocol.GetListenerResponse, Spec.Protocol.GetStatusResponse, Spec.Protocol.GetTimeProfileResponse, Spec.Protocol.GetTimeResponse, Spec.Protocol.OpenDoorResponse, Spec.Protocol.PutCardResponse, Spec.Protocol.RecordSpecialEventsResponse, Spec.Protocol.RefreshTaskListResponse, Spec.Protocol.RestoreDefaultParametersResponse, Spec.Protocol.SetDoorControlStateResponse, Spec.Protocol.SetDoorPasscodesResponse, Spec.Protocol.SetEventIndexResponse, Spec.Protocol.SetFirstCardResponse, Spec.Protocol.SetInterlockResponse, Spec.Protocol.SetListenerResponse, Spec.Protocol.SetPCControlResponse, Spec.Protocol.SetTimeProfileResponse, Spec.Protocol.SetTimeResponse]
   · refine ⟨_, rfl, ?_⟩
     intro args r hlen hsys
     simp only [Layout.names, Field.names, List.flatMap_cons, List.flatMap_nil, List.append_nil, List.cons_append, List.nil_append, List.length_cons, List.length_nil, Spec.Protocol.ActivateAccessKeypadsResponse, Spec.Protocol.AddTaskResponse, Spec.Protocol.ClearTaskListResponse, Spec.Protocol.ClearTimeProfilesResponse, Spec.Protocol.DeleteCardResponse, Spec.Protocol.DeleteCardsResponse, Spec.Protocol.GetCardByIDResponse, Spec.Protocol.GetCardByIndexResponse, Spec.Protocol.GetCardsResponse, Spec.Protocol.GetDeviceResponse, Spec.Protocol.GetDoorControlStateResponse, Spec.Protocol.GetEventIndexResponse, Spec.Protocol.GetEventResponse, Spec.Protocol.GetListenerResponse, Spec.Protocol.GetStatusResponse, Spec.Protocol.GetTimeProfileResponse, Spec.Protocol.GetTimeResponse, Spec.Protocol.OpenDoorResponse, Spec.Protocol.PutCardResponse, Spec.Protocol.RecordSpecialEventsResponse, Spec.Protocol.RefreshTaskListResponse, Spec.Protocol.RestoreDefaultParametersResponse, Spec.Protocol.SetDoorControlStateResponse, Spec.Protocol.SetDoorPasscodesResponse, Spec.Protocol.SetEventIndexResponse, Spec.Protocol.SetFirstCardResponse, Spec.Protocol.SetInterlockResponse, Spec.Protocol.SetListenerResponse, Spec.Protocol.SetPCControlResponse, Spec.Protocol.SetTimeProfileResponse, Spec.Protocol.SetTimeResponse] at hlen
     rcases r with _ | ⟨x0, _ | ⟨x1, _ | ⟨x2, _ | ⟨x3, _ | ⟨x4, _ | ⟨y, r⟩⟩⟩⟩⟩⟩ <;> simp at hlen
-    simp [List.lookup, Spec.Api.get, Spec.Api.succeeded, Spec.Api.card, okBool, cardResult, Spec.Api.simple, C01.v_val, Layout.names, Field.names, statusResult, Spec.Api.status, Spec.Protocol.ActivateAccessKeypadsResponse, Spec.Protocol.AddTaskResponse, Spec.Protocol.ClearTaskListResponse, Spec.Protocol.ClearTimeProfilesResponse, Spec.Protocol.DeleteCardResponse, Spec.Protocol.DeleteCardsResponse, Spec.Protocol.GetCardByIDResponse, Spec.Protocol.GetCardByIndexResponse, Spec.Protocol.GetCardsResponse, Spec.Protocol.GetDeviceResponse, Spec.Protocol.GetDoorControlStateResponse, Spec.Protocol.GetEventIndexResponse, Spec.Protocol.GetEventResponse, Spec.Protocol.GetListenerResponse, Spec.Protocol.GetStatusResponse, Spec.Protocol.GetTimeProfileResponse, Spec.Protocol.GetTimeResponse, Spec.Protocol.OpenDoorResponse, Spec.Protocol.PutCardResponse, Spec.Protocol.RecordSpecialEventsResponse, Spec.Protocol.RefreshTaskListResponse, Spec.Protocol.RestoreDefaultParametersResponse, Spec.Protocol.SetDoorControlStateResponse, Spec.Protocol.SetDoorPasscodesResponse, Spec.Protocol.SetEventIndexResponse, Spec.Protocol.SetFirstCardResponse, Spec.Protocol.SetInterlockResponse, Spec.Protocol.SetListenerResponse, Spec.Protocol.SetPCControlResponse, Spec.Protocol.SetTimeProfileResponse, Spec.Protocol.SetTimeResponse]
+    simp [List.lookup, Spec.Api.get, Spec.Api.succeeded, Spec.Api.card, okBool, cardResult, Spec.Api.simple, C01.v_val, Layout.names, Field.names, statusResult, statusEventOf, statusNoEvent, Spec.Api.status, Spec.Protocol.ActivateAccessKeypadsResponse, Spec.Protocol.AddTaskResponse, Spec.Protocol.ClearTaskListResponse, Spec.Protocol.ClearTimeProfilesResponse, Spec.Protocol.DeleteCardResponse, Spec.Protocol.DeleteCardsResponse, Spec.Protocol.GetCardByIDResponse, Spec.Protocol.GetCardByIndexResponse, Spec.Protocol.GetCardsResponse, Spec.Protocol.GetDeviceResponse, Spec.Protocol.GetDoorControlStateResponse, Spec.Protocol.GetEventIndexResponse, Spec.Protocol.GetEventResponse, Spec.Protocol.GetListenerResponse, Spec.Protocol.GetStatusResponse, Spec.Protocol.GetTimeProfileResponse, Spec.Protocol.GetTimeResponse, Spec.Protocol.OpenDoorResponse, Spec.Protocol.PutCardResponse, Spec.Protocol.RecordSpecialEventsResponse, Spec.Protocol.RefreshTaskListResponse, Spec.Protocol.RestoreDefaultParametersResponse, Spec.Protocol.SetDoorControlStateResponse, Spec.Protocol.SetDoorPasscodesResponse, Spec.Protocol.SetEventIndexResponse, Spec.Protocol.SetFirstCardResponse, Spec.Protocol.SetInterlockResponse, Spec.Protocol.SetListenerResponse, Spec.Protocol.SetPCControlResponse, Spec.Protocol.SetTimeProfileResponse, Spec.Protocol.SetTimeResponse]
   · refine ⟨_, rfl, ?_⟩
     intro args r hlen hsys
     simp only [Layout.names, Field.names, List.flatMap_cons, List.flatMap_nil, List.append_nil, List.cons_append, List.nil_append, List.length_cons, List.length_nil, Spec.Protocol.ActivateAccessKeypadsResponse, Spec.Protocol.AddTaskResponse, Spec.Protocol.ClearTaskListResponse, Spec.Protocol.ClearTimeProfilesResponse, Spec.Protocol.DeleteCardResponse, Spec.Protocol.DeleteCardsResponse, Spec.Protocol.GetCardByIDResponse, Spec.Protocol.GetCardByIndexResponse, Spec.Protocol.GetCardsResponse, Spec.Protocol.GetDeviceResponse, Spec.Protocol.GetDoorControlStateResponse, Spec.Protocol.GetEventIndexResponse, Spec.Protocol.GetEventResponse, Spec.Protocol.GetListenerResponse, Spec.Protocol.GetStatusResponse, Spec.Protocol.GetTimeProfileResponse, Spec.Protocol.GetTimeResponse, Spec.Protocol.OpenDoorResponse, Spec.Protocol.PutCardResponse, Spec.Protocol.RecordSpecialEventsResponse, Spec.Protocol.RefreshTaskListResponse, Spec.Protocol.RestoreDefaultParametersResponse, Spec.Protocol.SetDoorControlStateResponse, Spec.Protocol.SetDoorPasscodesResponse, Spec.Protocol.SetEventIndexResponse, Spec.Protocol.SetFirstCardResponse, Spec.Protocol.SetInterlockResponse, Spec.Protocol.SetListenerResponse, Spec.Protocol.SetPCControlResponse, Spec.Protocol.SetTimeProfileResponse, Spec.Protocol.SetTimeResponse] at hlen
     rcases r with _ | ⟨x0, _ | ⟨x1, _ | ⟨x2, _ | ⟨x3, _ | ⟨x4, _ | ⟨x5, _ | ⟨x6, _ | ⟨x7, _ | ⟨x8, _ | ⟨x9, _ | ⟨x10, _ | ⟨x11, _ | ⟨x12, _ | ⟨x13, _ | ⟨x14, _ | ⟨x15, _ | ⟨x16, _ | ⟨x17, _ | ⟨x18, _ | ⟨x19, _ | ⟨x20, _ | ⟨x21, _ | ⟨x22, _ | ⟨x23, _ | ⟨x24, _ | ⟨y, r⟩⟩⟩⟩⟩⟩⟩⟩⟩⟩⟩⟩⟩⟩⟩⟩⟩⟩⟩⟩⟩⟩⟩⟩⟩⟩ <;> simp at hlen
-    simp [List.lookup, Spec.Api.get, Spec.Api.succeeded, Spec.Api.card, okBool, cardResult, Spec.Api.simple, C01.v_val, Layout.names, Field.names, statusResult, Spec.Api.status, Spec.Protocol.ActivateAccessKeypadsResponse, Spec.Protocol.AddTaskResponse, Spec.Protocol.ClearTaskListResponse, Spec.Protocol.ClearTimeProfilesResponse, Spec.Protocol.DeleteCardResponse, Spec.Protocol.DeleteCardsResponse, Spec.Protocol.GetCardByIDResponse, Spec.Protocol.GetCardByIndexResponse, Spec.Protocol.GetCardsResponse, Spec.Protocol.GetDeviceResponse, Spec.Protocol.GetDoorControlStateResponse, Spec.Protocol.GetEventIndexResponse, Spec.Protocol.GetEventResponse, Spec.Protocol.GetListenerResponse, Spec.Protocol.GetStatusResponse, Spec.Protocol.GetTimeProfileResponse, Spec.Protocol.GetTimeResponse, Spec.Protocol.OpenDoorResponse, Spec.Protocol.PutCardResponse, Spec.Protocol.RecordSpecialEventsResponse, Spec.Protocol.RefreshTaskListResponse, Spec.Protocol.RestoreDefaultParametersResponse, Spec.Protocol.SetDoorControlStateResponse, Spec.Protocol.SetDoorPasscodesResponse, Spec.Protocol.SetEventIndexResponse, Spec.Protocol.SetFirstCardResponse, Spec.Protocol.SetInterlockResponse, Spec.Protocol.SetListenerResponse, Spec.Protocol.SetPCControlResponse, Spec.Protocol.SetTimeProfileResponse, Spec.Protocol.SetTimeResponse]
+    simp [List.lookup, Spec.Api.get, Spec.Api.succeeded, Spec.Api.card, okBool, cardResult, Spec.Api.simple, C01.v_val, Layout.names, Field.names, statusResult, statusEventOf, statusNoEvent, Spec.Api.status, Spec.Protocol.ActivateAccessKeypadsResponse, Spec.Protocol.AddTaskResponse, Spec.Protocol.ClearTaskListResponse, Spec.Protocol.ClearTimeProfilesResponse, Spec.Protocol.DeleteCardResponse, Spec.Protocol.DeleteCardsResponse, Spec.Protocol.GetCardByIDResponse, Spec.Protocol.GetCardByIndexResponse, Spec.Protocol.GetCardsResponse, Spec.Protocol.GetDeviceResponse, Spec.Protocol.GetDoorControlStateResponse, Spec.Protocol.GetEventIndexResponse, Spec.Protocol.GetEventResponse, Spec.Protocol.GetListenerResponse, Spec.Protocol.GetStatusResponse, Spec.Protocol.GetTimeProfileResponse, Spec.Protocol.GetTimeResponse, Spec.Protocol.OpenDoorResponse, Spec.Protocol.PutCardResponse, Spec.Protocol.RecordSpecialEventsResponse, Spec.Protocol.RefreshTaskListResponse, Spec.Protocol.RestoreDefaultParametersResponse, Spec.Protocol.SetDoorControlStateResponse, Spec.Protocol.SetDoorPasscodesResponse, Spec.Protocol.SetEventIndexResponse, Spec.Protocol.SetFirstCardResponse, Spec.Protocol.SetInterlockResponse, Spec.Protocol.SetListenerResponse, Spec.Protocol.SetPCControlResponse, Spec.Protocol.SetTimeProfileResponse, Spec.Protocol.SetTimeResponse]
     constructor
     · cases x19 with
       | sysDate d =>
@@ -254,7 +255,7 @@ theorem C02_result_positional : ∀ op ∈ ops, InterpretsSpec op := by
           | sysTime t =>
             have hy : 1969 ≤ d.y := hsys d (by simp)
             have : ¬ (d.y = 1 ∧ d.m = 1 ∧ d.d = 1 ∧ t.h = 0 ∧ t.m = 0 ∧ t.s = 0) := by omega
-            simp [this]
+            simp [sysDateTime, this]
           | _ => rfl
       | _ => rfl
     · cases x2 with
@@ -265,41 +266,41 @@ theorem C02_result_positional : ∀ op ∈ ops, InterpretsSpec op := by
     intro args r hlen hsys
     simp only [Layout.names, Field.names, List.flatMap_cons, List.flatMap_nil, List.append_nil, List.cons_append, List.nil_append, List.length_cons, List.length_nil, Spec.Protocol.ActivateAccessKeypadsResponse, Spec.Protocol.AddTaskResponse, Spec.Protocol.ClearTaskListResponse, Spec.Protocol.ClearTimeProfilesResponse, Spec.Protocol.DeleteCardResponse, Spec.Protocol.DeleteCardsResponse, Spec.Protocol.GetCardByIDResponse, Spec.Protocol.GetCardByIndexResponse, Spec.Protocol.GetCardsResponse, Spec.Protocol.GetDeviceResponse, Spec.Protocol.GetDoorControlStateResponse, Spec.Protocol.GetEventIndexResponse, Spec.Protocol.GetEventResponse, Spec.Protocol.GetListenerResponse, Spec.Protocol.GetStatusResponse, Spec.Protocol.GetTimeProfileResponse, Spec.Protocol.GetTimeResponse, Spec.Protocol.OpenDoorResponse, Spec.Protocol.PutCardResponse, Spec.Protocol.RecordSpecialEventsResponse, Spec.Protocol.RefreshTaskListResponse, Spec.Protocol.RestoreDefaultParametersResponse, Spec.Protocol.SetDoorControlStateResponse, Spec.Protocol.SetDoorPasscodesResponse, Spec.Protocol.SetEventIndexResponse, Spec.Protocol.SetFirstCardResponse, Spec.Protocol.SetInterlockResponse, Spec.Protocol.SetListenerResponse, Spec.Protocol.SetPCControlResponse, Spec.Protocol.SetTimeProfileResponse, Spec.Protocol.SetTimeResponse] at hlen
     rcases r with _ | ⟨x0, _ | ⟨x1, _ | ⟨x2, _ | ⟨y, r⟩⟩⟩⟩ <;> simp at hlen
-    simp [List.lookup, Spec.Api.get, Spec.Api.succeeded, Spec.Api.card, okBool, cardResult, Spec.Api.simple, C01.v_val, Layout.names, Field.names, statusResult, Spec.Api.status, Spec.Protocol.ActivateAccessKeypadsResponse, Spec.Protocol.AddTaskResponse, Spec.Protocol.ClearTaskListResponse, Spec.Protocol.ClearTimeProfilesResponse, Spec.Protocol.DeleteCardResponse, Spec.Protocol.DeleteCardsResponse, Spec.Protocol.GetCardByIDResponse, Spec.Protocol.GetCardByIndexResponse, Spec.Protocol.GetCardsResponse, Spec.Protocol.GetDeviceResponse, Spec.Protocol.GetDoorControlStateResponse, Spec.Protocol.GetEventIndexResponse, Spec.Protocol.GetEventResponse, Spec.Protocol.GetListenerResponse, Spec.Protocol.GetStatusResponse, Spec.Protocol.GetTimeProfileResponse, Spec.Protocol.GetTimeResponse, Spec.Protocol.OpenDoorResponse, Spec.Protocol.PutCardResponse, Spec.Protocol.RecordSpecialEventsResponse, Spec.Protocol.RefreshTaskListResponse, Spec.Protocol.RestoreDefaultParametersResponse, Spec.Protocol.SetDoorControlStateResponse, Spec.Protocol.SetDoorPasscodesResponse, Spec.Protocol.SetEventIndexResponse, Spec.Protocol.SetFirstCardResponse, Spec.Protocol.SetInterlockResponse, Spec.Protocol.SetListenerResponse, Spec.Protocol.SetPCControlResponse, Spec.Protocol.SetTimeProfileResponse, Spec.Protocol.SetTimeResponse]
+    simp [List.lookup, Spec.Api.get, Spec.Api.succeeded, Spec.Api.card, okBool, cardResult, Spec.Api.simple, C01.v_val, Layout.names, Field.names, statusResult, statusEventOf, statusNoEvent, Spec.Api.status, Spec.Protocol.ActivateAccessKeypadsResponse, Spec.Protocol.AddTaskResponse, Spec.Protocol.ClearTaskListResponse, Spec.Protocol.ClearTimeProfilesResponse, Spec.Protocol.DeleteCardResponse, Spec.Protocol.DeleteCardsResponse, Spec.Protocol.GetCardByIDResponse, Spec.Protocol.GetCardByIndexResponse, Spec.Protocol.GetCardsResponse, Spec.Protocol.GetDeviceResponse, Spec.Protocol.GetDoorControlStateResponse, Spec.Protocol.GetEventIndexResponse, Spec.Protocol.GetEventResponse, Spec.Protocol.GetListenerResponse, Spec.Protocol.GetStatusResponse, Spec.Protocol.GetTimeProfileResponse, Spec.Protocol.GetTimeResponse, Spec.Protocol.OpenDoorResponse, Spec.Protocol.PutCardResponse, Spec.Protocol.RecordSpecialEventsResponse, Spec.Protocol.RefreshTaskListResponse, Spec.Protocol.RestoreDefaultParametersResponse, Spec.Protocol.SetDoorControlStateResponse, Spec.Protocol.SetDoorPasscodesResponse, Spec.Protocol.SetEventIndexResponse, Spec.Protocol.SetFirstCardResponse, Spec.Protocol.SetInterlockResponse, Spec.Protocol.SetListenerResponse, Spec.Protocol.SetPCControlResponse, Spec.Protocol.SetTimeProfileResponse, Spec.Protocol.SetTimeResponse]
   · refine ⟨_, rfl, ?_⟩
     intro args r hlen hsys
     simp only [Layout.names, Field.names, List.flatMap_cons, List.flatMap_nil, List.append_nil, List.cons_append, List.nil_append, List.length_cons, List.length_nil, Spec.Protocol.ActivateAccessKeypadsResponse, Spec.Protocol.AddTaskResponse, Spec.Protocol.ClearTaskListResponse, Spec.Protocol.ClearTimeProfilesResponse, Spec.Protocol.DeleteCardResponse, Spec.Protocol.DeleteCardsResponse, Spec.Protocol.GetCardByIDResponse, Spec.Protocol.GetCardByIndexResponse, Spec.Protocol.GetCardsResponse, Spec.Protocol.GetDeviceResponse, Spec.Protocol.GetDoorControlStateResponse, Spec.Protocol.GetEventIndexResponse, Spec.Protocol.GetEventResponse, Spec.Protocol.GetListenerResponse, Spec.Protocol.GetStatusResponse, Spec.Protocol.GetTimeProfileResponse, Spec.Protocol.GetTimeResponse, Spec.Protocol.OpenDoorResponse, Spec.Protocol.PutCardResponse, Spec.Protocol.RecordSpecialEventsResponse, Spec.Protocol.RefreshTaskListResponse, Spec.Protocol.RestoreDefaultParametersResponse, Spec.Protocol.SetDoorControlStateResponse, Spec.Protocol.SetDoorPasscodesResponse, Spec.Protocol.SetEventIndexResponse, Spec.Protocol.SetFirstCardResponse, Spec.Protocol.SetInterlockResponse, Spec.Protocol.SetListenerResponse, Spec.Protocol.SetPCControlResponse, Spec.Protocol.SetTimeProfileResponse, Spec.Protocol.SetTimeResponse] at hlen
     rcases r with _ | ⟨x0, _ | ⟨x1, _ | ⟨x2, _ | ⟨x3, _ | ⟨x4, _ | ⟨x5, _ | ⟨x6, _ | ⟨x7, _ | ⟨x8, _ | ⟨x9, _ | ⟨y, r⟩⟩⟩⟩⟩⟩⟩⟩⟩⟩⟩ <;> simp at hlen
-    simp [List.lookup, Spec.Api.get, Spec.Api.succeeded, Spec.Api.card, okBool, cardResult, Spec.Api.simple, C01.v_val, Layout.names, Field.names, statusResult, Spec.Api.status, Spec.Protocol.ActivateAccessKeypadsResponse, Spec.Protocol.AddTaskResponse, Spec.Protocol.ClearTaskListResponse, Spec.Protocol.ClearTimeProfilesResponse, Spec.Protocol.DeleteCardResponse, Spec.Protocol.DeleteCardsResponse, Spec.Protocol.GetCardByIDResponse, Spec.Protocol.GetCardByIndexResponse, Spec.Protocol.GetCardsResponse, Spec.Protocol.GetDeviceResponse, Spec.Protocol.GetDoorControlStateResponse, Spec.Protocol.GetEventIndexResponse, Spec.Protocol.GetEventResponse, Spec.Protocol.GetListenerResponse, Spec.Protocol.GetStatusResponse, Spec.Protocol.GetTimeProfileResponse, Spec.Protocol.GetTimeResponse, Spec.Protocol.OpenDoorResponse, Spec.Protocol.PutCardResponse, Spec.Protocol.RecordSpecialEventsResponse, Spec.Protocol.RefreshTaskListResponse, Spec.Protocol.RestoreDefaultParametersResponse, Spec.Protocol.SetDoorControlStateResponse, Spec.Protocol.SetDoorPasscodesResponse, Spec.Protocol.SetEventIndexResponse, Spec.Protocol.SetFirstCardResponse, Spec.Protocol.SetInterlockResponse, Spec.Protocol.SetListenerResponse, Spec.Protocol.SetPCControlResponse, Spec.Protocol.SetTimeProfileResponse, Spec.Protocol.SetTimeResponse]
+    simp [List.lookup, Spec.Api.get, Spec.Api.succeeded, Spec.Api.card, okBool, cardResult, Spec.Api.simple, C01.v_val, Layout.names, Field.names, statusResult, statusEventOf, statusNoEvent, Spec.Api.status, Spec.Protocol.ActivateAccessKeypadsResponse, Spec.Protocol.AddTaskResponse, Spec.Protocol.ClearTaskListResponse, Spec.Protocol.ClearTimeProfilesResponse, Spec.Protocol.DeleteCardResponse, Spec.Protocol.DeleteCardsResponse, Spec.Protocol.GetCardByIDResponse, Spec.Protocol.GetCardByIndexResponse, Spec.Protocol.GetCardsResponse, Spec.Protocol.GetDeviceResponse, Spec.Protocol.GetDoorControlStateResponse, Spec.Protocol.GetEventIndexResponse, Spec.Protocol.GetEventResponse, Spec.Protocol.GetListenerResponse, Spec.Protocol.GetStatusResponse, Spec.Protocol.GetTimeProfileResponse, Spec.Protocol.GetTimeResponse, Spec.Protocol.OpenDoorResponse, Spec.Protocol.PutCardResponse, Spec.Protocol.RecordSpecialEventsResponse, Spec.Protocol.RefreshTaskListResponse, Spec.Protocol.RestoreDefaultParametersResponse, Spec.Protocol.SetDoorControlStateResponse, Spec.Protocol.SetDoorPasscodesResponse, Spec.Protocol.SetEventIndexResponse, Spec.Protocol.SetFirstCardResponse, Spec.Protocol.SetInterlockResponse, Spec.Protocol.SetListenerResponse, Spec.Protocol.SetPCControlResponse, Spec.Protocol.SetTimeProfileResponse, Spec.Protocol.SetTimeResponse]
     cases x2 <;> rfl
 
   · refine ⟨_, rfl, ?_⟩
     intro args r hlen hsys
     simp only [Layout.names, Field.names, List.flatMap_cons, List.flatMap_nil, List.append_nil, List.cons_append, List.nil_append, List.length_cons, List.length_nil, Spec.Protocol.ActivateAccessKeypadsResponse, Spec.Protocol.AddTaskResponse, Spec.Protocol.ClearTaskListResponse, Spec.Protocol.ClearTimeProfilesResponse, Spec.Protocol.DeleteCardResponse, Spec.Protocol.DeleteCardsResponse, Spec.Protocol.GetCardByIDResponse, Spec.Protocol.GetCardByIndexResponse, Spec.Protocol.GetCardsResponse, Spec.Protocol.GetDeviceResponse, Spec.Protocol.GetDoorControlStateResponse, Spec.Protocol.GetEventIndexResponse, Spec.Protocol.GetEventResponse, Spec.Protocol.GetListenerResponse, Spec.Protocol.GetStatusResponse, Spec.Protocol.GetTimeProfileResponse, Spec.Protocol.GetTimeResponse, Spec.Protocol.OpenDoorResponse, Spec.Protocol.PutCardResponse, Spec.Protocol.RecordSpecialEventsResponse, Spec.Protocol.RefreshTaskListResponse, Spec.Protocol.RestoreDefaultParametersResponse, Spec.Protocol.SetDoorControlStateResponse, Spec.Protocol.SetDoorPasscodesResponse, Spec.Protocol.SetEventIndexResponse, Spec.Protocol.SetFirstCardResponse, Spec.Protocol.SetInterlockResponse, Spec.Protocol.SetListenerResponse, Spec.Protocol.SetPCControlResponse, Spec.Protocol.SetTimeProfileResponse, Spec.Protocol.SetTimeResponse] at hlen
     rcases r with _ | ⟨x0, _ | ⟨x1, _ | ⟨x2, _ | ⟨x3, _ | ⟨x4, _ | ⟨x5, _ | ⟨x6, _ | ⟨x7, _ | ⟨x8, _ | ⟨x9, _ | ⟨y, r⟩⟩⟩⟩⟩⟩⟩⟩⟩⟩⟩ <;> simp at hlen
-    simp [List.lookup, Spec.Api.get, Spec.Api.succeeded, Spec.Api.card, okBool, cardResult, Spec.Api.simple, C01.v_val, Layout.names, Field.names, statusResult, Spec.Api.status, Spec.Protocol.ActivateAccessKeypadsResponse, Spec.Protocol.AddTaskResponse, Spec.Protocol.ClearTaskListResponse, Spec.Protocol.ClearTimeProfilesResponse, Spec.Protocol.DeleteCardResponse, Spec.Protocol.DeleteCardsResponse, Spec.Protocol.GetCardByIDResponse, Spec.Protocol.GetCardByIndexResponse, Spec.Protocol.GetCardsResponse, Spec.Protocol.GetDeviceResponse, Spec.Protocol.GetDoorControlStateResponse, Spec.Protocol.GetEventIndexResponse, Spec.Protocol.GetEventResponse, Spec.Protocol.GetListenerResponse, Spec.Protocol.GetStatusResponse, Spec.Protocol.GetTimeProfileResponse, Spec.Protocol.GetTimeResponse, Spec.Protocol.OpenDoorResponse, Spec.Protocol.PutCardResponse, Spec.Protocol.RecordSpecialEventsResponse, Spec.Protocol.RefreshTaskListResponse, Spec.Protocol.RestoreDefaultParametersResponse, Spec.Protocol.SetDoorControlStateResponse, Spec.Protocol.SetDoorPasscodesResponse, Spec.Protocol.SetEventIndexResponse, Spec.Protocol.SetFirstCardResponse, Spec.Protocol.SetInterlockResponse, Spec.Protocol.SetListenerResponse, Spec.Protocol.SetPCControlResponse, Spec.Protocol.SetTimeProfileResponse, Spec.Protocol.SetTimeResponse]
+    simp [List.lookup, Spec.Api.get, Spec.Api.succeeded, Spec.Api.card, okBool, cardResult, Spec.Api.simple, C01.v_val, Layout.names, Field.names, statusResult, statusEventOf, statusNoEvent, Spec.Api.status, Spec.Protocol.ActivateAccessKeypadsResponse, Spec.Protocol.AddTaskResponse, Spec.Protocol.ClearTaskListResponse, Spec.Protocol.ClearTimeProfilesResponse, Spec.Protocol.DeleteCardResponse, Spec.Protocol.DeleteCardsResponse, Spec.Protocol.GetCardByIDResponse, Spec.Protocol.GetCardByIndexResponse, Spec.Protocol.GetCardsResponse, Spec.Protocol.GetDeviceResponse, Spec.Protocol.GetDoorControlStateResponse, Spec.Protocol.GetEventIndexResponse, Spec.Protocol.GetEventResponse, Spec.Protocol.GetListenerResponse, Spec.Protocol.GetStatusResponse, Spec.Protocol.GetTimeProfileResponse, Spec.Protocol.GetTimeResponse, Spec.Protocol.OpenDoorResponse, Spec.Protocol.PutCardResponse, Spec.Protocol.RecordSpecialEventsResponse, Spec.Protocol.RefreshTaskListResponse, Spec.Protocol.RestoreDefaultParametersResponse, Spec.Protocol.SetDoorControlStateResponse, Spec.Protocol.SetDoorPasscodesResponse, Spec.Protocol.SetEventIndexResponse, Spec.Protocol.SetFirstCardResponse, Spec.Protocol.SetInterlockResponse, Spec.Protocol.SetListenerResponse, Spec.Protocol.SetPCControlResponse, Spec.Protocol.SetTimeProfileResponse, Spec.Protocol.SetTimeResponse]
     cases x2 <;> simp [u32?_n32, C01.v_arg]
 
   · refine ⟨_, rfl, ?_⟩
     intro args r hlen hsys
     simp only [Layout.names, Field.names, List.flatMap_cons, List.flatMap_nil, List.append_nil, List.cons_append, List.nil_append, List.length_cons, List.length_nil, Spec.Protocol.ActivateAccessKeypadsResponse, Spec.Protocol.AddTaskResponse, Spec.Protocol.ClearTaskListResponse, Spec.Protocol.ClearTimeProfilesResponse, Spec.Protocol.DeleteCardResponse, Spec.Protocol.DeleteCardsResponse, Spec.Protocol.GetCardByIDResponse, Spec.Protocol.GetCardByIndexResponse, Spec.Protocol.GetCardsResponse, Spec.Protocol.GetDeviceResponse, Spec.Protocol.GetDoorControlStateResponse, Spec.Protocol.GetEventIndexResponse, Spec.Protocol.GetEventResponse, Spec.Protocol.GetListenerResponse, Spec.Protocol.GetStatusResponse, Spec.Protocol.GetTimeProfileResponse, Spec.Protocol.GetTimeResponse, Spec.Protocol.OpenDoorResponse, Spec.Protocol.PutCardResponse, Spec.Protocol.RecordSpecialEventsResponse, Spec.Protocol.RefreshTaskListResponse, Spec.Protocol.RestoreDefaultParametersResponse, Spec.Protocol.SetDoorControlStateResponse, Spec.Protocol.SetDoorPasscodesResponse, Spec.Protocol.SetEventIndexResponse, Spec.Protocol.SetFirstCardResponse, Spec.Protocol.SetInterlockResponse, Spec.Protocol.SetListenerResponse, Spec.Protocol.SetPCControlResponse, Spec.Protocol.SetTimeProfileResponse, Spec.Protocol.SetTimeResponse] at hlen
     rcases r with _ | ⟨x0, _ | ⟨x1, _ | ⟨x2, _ | ⟨y, r⟩⟩⟩⟩ <;> simp at hlen
-    simp [List.lookup, Spec.Api.get, Spec.Api.succeeded, Spec.Api.card, okBool, cardResult, Spec.Api.simple, C01.v_val, Layout.names, Field.names, statusResult, Spec.Api.status, Spec.Protocol.ActivateAccessKeypadsResponse, Spec.Protocol.AddTaskResponse, Spec.Protocol.ClearTaskListResponse, Spec.Protocol.ClearTimeProfilesResponse, Spec.Protocol.DeleteCardResponse, Spec.Protocol.DeleteCardsResponse, Spec.Protocol.GetCardByIDResponse, Spec.Protocol.GetCardByIndexResponse, Spec.Protocol.GetCardsResponse, Spec.Protocol.GetDeviceResponse, Spec.Protocol.GetDoorControlStateResponse, Spec.Protocol.GetEventIndexResponse, Spec.Protocol.GetEventResponse, Spec.Protocol.GetListenerResponse, Spec.Protocol.GetStatusResponse, Spec.Protocol.GetTimeProfileResponse, Spec.Protocol.GetTimeResponse, Spec.Protocol.OpenDoorResponse, Spec.Protocol.PutCardResponse, Spec.Protocol.RecordSpecialEventsResponse, Spec.Protocol.RefreshTaskListResponse, Spec.Protocol.RestoreDefaultParametersResponse, Spec.Protocol.SetDoorControlStateResponse, Spec.Protocol.SetDoorPasscodesResponse, Spec.Protocol.SetEventIndexResponse, Spec.Protocol.SetFirstCardResponse, Spec.Protocol.SetInterlockResponse, Spec.Protocol.SetListenerResponse, Spec.Protocol.SetPCControlResponse, Spec.Protocol.SetTimeProfileResponse, Spec.Protocol.SetTimeResponse]
+    simp [List.lookup, Spec.Api.get, Spec.Api.succeeded, Spec.Api.card, okBool, cardResult, Spec.Api.simple, C01.v_val, Layout.names, Field.names, statusResult, statusEventOf, statusNoEvent, Spec.Api.status, Spec.Protocol.ActivateAccessKeypadsResponse, Spec.Protocol.AddTaskResponse, Spec.Protocol.ClearTaskListResponse, Spec.Protocol.ClearTimeProfilesResponse, Spec.Protocol.DeleteCardResponse, Spec.Protocol.DeleteCardsResponse, Spec.Protocol.GetCardByIDResponse, Spec.Protocol.GetCardByIndexResponse, Spec.Protocol.GetCardsResponse, Spec.Protocol.GetDeviceResponse, Spec.Protocol.GetDoorControlStateResponse, Spec.Protocol.GetEventIndexResponse, Spec.Protocol.GetEventResponse, Spec.Protocol.GetListenerResponse, Spec.Protocol.GetStatusResponse, Spec.Protocol.GetTimeProfileResponse, Spec.Protocol.GetTimeResponse, Spec.Protocol.OpenDoorResponse, Spec.Protocol.PutCardResponse, Spec.Protocol.RecordSpecialEventsResponse, Spec.Protocol.RefreshTaskListResponse, Spec.Protocol.RestoreDefaultParametersResponse, Spec.Protocol.SetDoorControlStateResponse, Spec.Protocol.SetDoorPasscodesResponse, Spec.Protocol.SetEventIndexResponse, Spec.Protocol.SetFirstCardResponse, Spec.Protocol.SetInterlockResponse, Spec.Protocol.SetListenerResponse, Spec.Protocol.SetPCControlResponse, Spec.Protocol.SetTimeProfileResponse, Spec.Protocol.SetTimeResponse]
   · refine ⟨_, rfl, ?_⟩
     intro args r hlen hsys
     simp only [Layout.names, Field.names, List.flatMap_cons, List.flatMap_nil, List.append_nil, List.cons_append, List.nil_append, List.length_cons, List.length_nil, Spec.Protocol.ActivateAccessKeypadsResponse, Spec.Protocol.AddTaskResponse, Spec.Protocol.ClearTaskListResponse, Spec.Protocol.ClearTimeProfilesResponse, Spec.Protocol.DeleteCardResponse, Spec.Protocol.DeleteCardsResponse, Spec.Protocol.GetCardByIDResponse, Spec.Protocol.GetCardByIndexResponse, Spec.Protocol.GetCardsResponse, Spec.Protocol.GetDeviceResponse, Spec.Protocol.GetDoorControlStateResponse, Spec.Protocol.GetEventIndexResponse, Spec.Protocol.GetEventResponse, Spec.Protocol.GetListenerResponse, Spec.Protocol.GetStatusResponse, Spec.Protocol.GetTimeProfileResponse, Spec.Protocol.GetTimeResponse, Spec.Protocol.OpenDoorResponse, Spec.Protocol.PutCardResponse, Spec.Protocol.RecordSpecialEventsResponse, Spec.Protocol.RefreshTaskListResponse, Spec.Protocol.RestoreDefaultParametersResponse, Spec.Protocol.SetDoorControlStateResponse, Spec.Protocol.SetDoorPasscodesResponse, Spec.Protocol.SetEventIndexResponse, Spec.Protocol.SetFirstCardResponse, Spec.Protocol.SetInterlockResponse, Spec.Protocol.SetListenerResponse, Spec.Protocol.SetPCControlResponse, Spec.Protocol.SetTimeProfileResponse, Spec.Protocol.SetTimeResponse] at hlen
     rcases r with _ | ⟨x0, _ | ⟨x1, _ | ⟨x2, _ | ⟨y, r⟩⟩⟩⟩ <;> simp at hlen
-    simp [List.lookup, Spec.Api.get, Spec.Api.succeeded, Spec.Api.card, okBool, cardResult, Spec.Api.simple, C01.v_val, Layout.names, Field.names, statusResult, Spec.Api.status, Spec.Protocol.ActivateAccessKeypadsResponse, Spec.Protocol.AddTaskResponse, Spec.Protocol.ClearTaskListResponse, Spec.Protocol.ClearTimeProfilesResponse, Spec.Protocol.DeleteCardResponse, Spec.Protocol.DeleteCardsResponse, Spec.Protocol.GetCardByIDResponse, Spec.Protocol.GetCardByIndexResponse, Spec.Protocol.GetCardsResponse, Spec.Protocol.GetDeviceResponse, Spec.Protocol.GetDoorControlStateResponse, Spec.Protocol.GetEventIndexResponse, Spec.Protocol.GetEventResponse, Spec.Protocol.GetListenerResponse, Spec.Protocol.GetStatusResponse, Spec.Protocol.GetTimeProfileResponse, Spec.Protocol.GetTimeResponse, Spec.Protocol.OpenDoorResponse, Spec.Protocol.PutCardResponse, Spec.Protocol.RecordSpecialEventsResponse, Spec.Protocol.RefreshTaskListResponse, Spec.Protocol.RestoreDefaultParametersResponse, Spec.Protocol.SetDoorControlStateResponse, Spec.Protocol.SetDoorPasscodesResponse, Spec.Protocol.SetEventIndexResponse, Spec.Protocol.SetFirstCardResponse, Spec.Protocol.SetInterlockResponse, Spec.Protocol.SetListenerResponse, Spec.Protocol.SetPCControlResponse, Spec.Protocol.SetTimeProfileResponse, Spec.Protocol.SetTimeResponse]
+    simp [List.lookup, Spec.Api.get, Spec.Api.succeeded, Spec.Api.card, okBool, cardResult, Spec.Api.simple, C01.v_val, Layout.names, Field.names, statusResult, statusEventOf, statusNoEvent, Spec.Api.status, Spec.Protocol.ActivateAccessKeypadsResponse, Spec.Protocol.AddTaskResponse, Spec.Protocol.ClearTaskListResponse, Spec.Protocol.ClearTimeProfilesResponse, Spec.Protocol.DeleteCardResponse, Spec.Protocol.DeleteCardsResponse, Spec.Protocol.GetCardByIDResponse, Spec.Protocol.GetCardByIndexResponse, Spec.Protocol.GetCardsResponse, Spec.Protocol.GetDeviceResponse, Spec.Protocol.GetDoorControlStateResponse, Spec.Protocol.GetEventIndexResponse, Spec.Protocol.GetEventResponse, Spec.Protocol.GetListenerResponse, Spec.Protocol.GetStatusResponse, Spec.Protocol.GetTimeProfileResponse, Spec.Protocol.GetTimeResponse, Spec.Protocol.OpenDoorResponse, Spec.Protocol.PutCardResponse, Spec.Protocol.RecordSpecialEventsResponse, Spec.Protocol.RefreshTaskListResponse, Spec.Protocol.RestoreDefaultParametersResponse, Spec.Protocol.SetDoorControlStateResponse, Spec.Protocol.SetDoorPasscodesResponse, Spec.Protocol.SetEventIndexResponse, Spec.Protocol.SetFirstCardResponse, Spec.Protocol.SetInterlockResponse, Spec.Protocol.SetListenerResponse, Spec.Protocol.SetPCControlResponse, Spec.Protocol.SetTimeProfileResponse, Spec.Protocol.SetTimeResponse]
   · refine ⟨_, rfl, ?_⟩
     intro args r hlen hsys
     simp only [Layout.names, Field.names, List.flatMap_cons, List.flatMap_nil, List.append_nil, List.cons_append, List.nil_append, List.length_cons, List.length_nil, Spec.Protocol.ActivateAccessKeypadsResponse, Spec.Protocol.AddTaskResponse, Spec.Protocol.ClearTaskListResponse, Spec.Protocol.ClearTimeProfilesResponse, Spec.Protocol.DeleteCardResponse, Spec.Protocol.DeleteCardsResponse, Spec.Protocol.GetCardByIDResponse, Spec.Protocol.GetCardByIndexResponse, Spec.Protocol.GetCardsResponse, Spec.Protocol.GetDeviceResponse, Spec.Protocol.GetDoorControlStateResponse, Spec.Protocol.GetEventIndexResponse, Spec.Protocol.GetEventResponse, Spec.Protocol.GetListenerResponse, Spec.Protocol.GetStatusResponse, Spec.Protocol.GetTimeProfileResponse, Spec.Protocol.GetTimeResponse, Spec.Protocol.OpenDoorResponse, Spec.Protocol.PutCardResponse, Spec.Protocol.RecordSpecialEventsResponse, Spec.Protocol.RefreshTaskListResponse, Spec.Protocol.RestoreDefaultParametersResponse, Spec.Protocol.SetDoorControlStateResponse, Spec.Protocol.SetDoorPasscodesResponse, Spec.Protocol.SetEventIndexResponse, Spec.Protocol.SetFirstCardResponse, Spec.Protocol.SetInterlockResponse, Spec.Protocol.SetListenerResponse, Spec.Protocol.SetPCControlResponse, Spec.Protocol.SetTimeProfileResponse, Spec.Protocol.SetTimeResponse] at hlen
     rcases r with _ | ⟨x0, _ | ⟨x1, _ | ⟨x2, _ | ⟨y, r⟩⟩⟩⟩ <;> simp at hlen
-    simp [List.lookup, Spec.Api.get, Spec.Api.succeeded, Spec.Api.card, okBool, cardResult, Spec.Api.simple, C01.v_val, Layout.names, Field.names, statusResult, Spec.Api.status, Spec.Protocol.ActivateAccessKeypadsResponse, Spec.Protocol.AddTaskResponse, Spec.Protocol.ClearTaskListResponse, Spec.Protocol.ClearTimeProfilesResponse, Spec.Protocol.DeleteCardResponse, Spec.Protocol.DeleteCardsResponse, Spec.Protocol.GetCardByIDResponse, Spec.Protocol.GetCardByIndexResponse, Spec.Protocol.GetCardsResponse, Spec.Protocol.GetDeviceResponse, Spec.Protocol.GetDoorControlStateResponse, Spec.Protocol.GetEventIndexResponse, Spec.Protocol.GetEventResponse, Spec.Protocol.GetListenerResponse, Spec.Protocol.GetStatusResponse, Spec.Protocol.GetTimeProfileResponse, Spec.Protocol.GetTimeResponse, Spec.Protocol.OpenDoorResponse, Spec.Protocol.PutCardResponse, Spec.Protocol.RecordSpecialEventsResponse, Spec.Protocol.RefreshTaskListResponse, Spec.Protocol.RestoreDefaultParametersResponse, Spec.Protocol.SetDoorControlStateResponse, Spec.Protocol.SetDoorPasscodesResponse, Spec.Protocol.SetEventIndexResponse, Spec.Protocol.SetFirstCardResponse, Spec.Protocol.SetInterlockResponse, Spec.Protocol.SetListenerResponse, Spec.Protocol.SetPCControlResponse, Spec.Protocol.SetTimeProfileResponse, Spec.Protocol.SetTimeResponse]
+    simp [List.lookup, Spec.Api.get, Spec.Api.succeeded, Spec.Api.card, okBool, cardResult, Spec.Api.simple, C01.v_val, Layout.names, Field.names, statusResult, statusEventOf, statusNoEvent, Spec.Api.status, Spec.Protocol.ActivateAccessKeypadsResponse, Spec.Protocol.AddTaskResponse, Spec.Protocol.ClearTaskListResponse, Spec.Protocol.ClearTimeProfilesResponse, Spec.Protocol.DeleteCardResponse, Spec.Protocol.DeleteCardsResponse, Spec.Protocol.GetCardByIDResponse, Spec.Protocol.GetCardByIndexResponse, Spec.Protocol.GetCardsResponse, Spec.Protocol.GetDeviceResponse, Spec.Protocol.GetDoorControlStateResponse, Spec.Protocol.GetEventIndexResponse, Spec.Protocol.GetEventResponse, Spec.Protocol.GetListenerResponse, Spec.Protocol.GetStatusResponse, Spec.Protocol.GetTimeProfileResponse, Spec.Protocol.GetTimeResponse, Spec.Protocol.OpenDoorResponse, Spec.Protocol.PutCardResponse, Spec.Protocol.RecordSpecialEventsResponse, Spec.Protocol.RefreshTaskListResponse, Spec.Protocol.RestoreDefaultParametersResponse, Spec.Protocol.SetDoorControlStateResponse, Spec.Protocol.SetDoorPasscodesResponse, Spec.Protocol.SetEventIndexResponse, Spec.Protocol.SetFirstCardResponse, Spec.Protocol.SetInterlockResponse, Spec.Protocol.SetListenerResponse, Spec.Protocol.SetPCControlResponse, Spec.Protocol.SetTimeProfileResponse, Spec.Protocol.SetTimeResponse]
   · refine ⟨_, rfl, ?_⟩
     intro args r hlen hsys
     simp only [Layout.names, Field.names, List.flatMap_cons, List.flatMap_nil, List.append_nil, List.cons_append, List.nil_append, List.length_cons, List.length_nil, Spec.Protocol.ActivateAccessKeypadsResponse, Spec.Protocol.AddTaskResponse, Spec.Protocol.ClearTaskListResponse, Spec.Protocol.ClearTimeProfilesResponse, Spec.Protocol.DeleteCardResponse, Spec.Protocol.DeleteCardsResponse, Spec.Protocol.GetCardByIDResponse, Spec.Protocol.GetCardByIndexResponse, Spec.Protocol.GetCardsResponse, Spec.Protocol.GetDeviceResponse, Spec.Protocol.GetDoorControlStateResponse, Spec.Protocol.GetEventIndexResponse, Spec.Protocol.GetEventResponse, Spec.Protocol.GetListenerResponse, Spec.Protocol.GetStatusResponse, Spec.Protocol.GetTimeProfileResponse, Spec.Protocol.GetTimeResponse, Spec.Protocol.OpenDoorResponse, Spec.Protocol.PutCardResponse, Spec.Protocol.RecordSpecialEventsResponse, Spec.Protocol.RefreshTaskListResponse, Spec.Protocol.RestoreDefaultParametersResponse, Spec.Protocol.SetDoorControlStateResponse, Spec.Protocol.SetDoorPasscodesResponse, Spec.Protocol.SetEventIndexResponse, Spec.Protocol.SetFirstCardResponse, Spec.Protocol.SetInterlockResponse, Spec.Protocol.SetListenerResponse, Spec.Protocol.SetPCControlResponse, Spec.Protocol.SetTimeProfileResponse, Spec.Protocol.SetTimeResponse] at hlen
     rcases r with _ | ⟨x0, _ | ⟨x1, _ | ⟨x2, _ | ⟨x3, _ | ⟨x4, _ | ⟨x5, _ | ⟨x6, _ | ⟨x7, _ | ⟨x8, _ | ⟨x9, _ | ⟨x10, _ | ⟨x11, _ | ⟨x12, _ | ⟨x13, _ | ⟨x14, _ | ⟨x15, _ | ⟨x16, _ | ⟨x17, _ | ⟨x18, _ | ⟨y, r⟩⟩⟩⟩⟩⟩⟩⟩⟩⟩⟩⟩⟩⟩⟩⟩⟩⟩⟩⟩ <;> simp at hlen
-    simp [List.lookup, Spec.Api.get, Spec.Api.succeeded, Spec.Api.card, okBool, cardResult, Spec.Api.simple, C01.v_val, Layout.names, Field.names, statusResult, Spec.Api.status, Spec.Protocol.ActivateAccessKeypadsResponse, Spec.Protocol.AddTaskResponse, Spec.Protocol.ClearTaskListResponse, Spec.Protocol.ClearTimeProfilesResponse, Spec.Protocol.DeleteCardResponse, Spec.Protocol.DeleteCardsResponse, Spec.Protocol.GetCardByIDResponse, Spec.Protocol.GetCardByIndexResponse, Spec.Protocol.GetCardsResponse, Spec.Protocol.GetDeviceResponse, Spec.Protocol.GetDoorControlStateResponse, Spec.Protocol.GetEventIndexResponse, Spec.Protocol.GetEventResponse, Spec.Protocol.GetListenerResponse, Spec.Protocol.GetStatusResponse, Spec.Protocol.GetTimeProfileResponse, Spec.Protocol.GetTimeResponse, Spec.Protocol.OpenDoorResponse, Spec.Protocol.PutCardResponse, Spec.Protocol.RecordSpecialEventsResponse, Spec.Protocol.RefreshTaskListResponse, Spec.Protocol.RestoreDefaultParametersResponse, Spec.Protocol.SetDoorControlStateResponse, Spec.Protocol.SetDoorPasscodesResponse, Spec.Protocol.SetEventIndexResponse, Spec.Protocol.SetFirstCardResponse, Spec.Protocol.SetInterlockResponse, Spec.Protocol.SetListenerResponse, Spec.Protocol.SetPCControlResponse, Spec.Protocol.SetTimeProfileResponse, Spec.Protocol.SetTimeResponse]
+    simp [List.lookup, Spec.Api.get, Spec.Api.succeeded, Spec.Api.card, okBool, cardResult, Spec.Api.simple, C01.v_val, Layout.names, Field.names, statusResult, statusEventOf, statusNoEvent, Spec.Api.status, Spec.Protocol.ActivateAccessKeypadsResponse, Spec.Protocol.AddTaskResponse, Spec.Protocol.ClearTaskListResponse, Spec.Protocol.ClearTimeProfilesResponse, Spec.Protocol.DeleteCardResponse, Spec.Protocol.DeleteCardsResponse, Spec.Protocol.GetCardByIDResponse, Spec.Protocol.GetCardByIndexResponse, Spec.Protocol.GetCardsResponse, Spec.Protocol.GetDeviceResponse, Spec.Protocol.GetDoorControlStateResponse, Spec.Protocol.GetEventIndexResponse, Spec.Protocol.GetEventResponse, Spec.Protocol.GetListenerResponse, Spec.Protocol.GetStatusResponse, Spec.Protocol.GetTimeProfileResponse, Spec.Protocol.GetTimeResponse, Spec.Protocol.OpenDoorResponse, Spec.Protocol.PutCardResponse, Spec.Protocol.RecordSpecialEventsResponse, Spec.Protocol.RefreshTaskListResponse, Spec.Protocol.RestoreDefaultParametersResponse, Spec.Protocol.SetDoorControlStateResponse, Spec.Protocol.SetDoorPasscodesResponse, Spec.Protocol.SetEventIndexResponse, Spec.Protocol.SetFirstCardResponse, Spec.Protocol.SetInterlockResponse, Spec.Protocol.SetListenerResponse, Spec.Protocol.SetPCControlResponse, Spec.Protocol.SetTimeProfileResponse, Spec.Protocol.SetTimeResponse]
     cases x2 with
     | u8 n =>
       simp only [hmOfPtr_hmVal, n8_u8?, C01.v_arg]
@@ -315,81 +316,81 @@ theorem C02_result_positional : ∀ op ∈ ops, InterpretsSpec op := by
     intro args r hlen hsys
     simp only [Layout.names, Field.names, List.flatMap_cons, List.flatMap_nil, List.append_nil, List.cons_append, List.nil_append, List.length_cons, List.length_nil, Spec.Protocol.ActivateAccessKeypadsResponse, Spec.Protocol.AddTaskResponse, Spec.Protocol.ClearTaskListResponse, Spec.Protocol.ClearTimeProfilesResponse, Spec.Protocol.DeleteCardResponse, Spec.Protocol.DeleteCardsResponse, Spec.Protocol.GetCardByIDResponse, Spec.Protocol.GetCardByIndexResponse, Spec.Protocol.GetCardsResponse, Spec.Protocol.GetDeviceResponse, Spec.Protocol.GetDoorControlStateResponse, Spec.Protocol.GetEventIndexResponse, Spec.Protocol.GetEventResponse, Spec.Protocol.GetListenerResponse, Spec.Protocol.GetStatusResponse, Spec.Protocol.GetTimeProfileResponse, Spec.Protocol.GetTimeResponse, Spec.Protocol.OpenDoorResponse, Spec.Protocol.PutCardResponse, Spec.Protocol.RecordSpecialEventsResponse, Spec.Protocol.RefreshTaskListResponse, Spec.Protocol.RestoreDefaultParametersResponse, Spec.Protocol.SetDoorControlStateResponse, Spec.Protocol.SetDoorPasscodesResponse, Spec.Protocol.SetEventIndexResponse, Spec.Protocol.SetFirstCardResponse, Spec.Protocol.SetInterlockResponse, Spec.Protocol.SetListenerResponse, Spec.Protocol.SetPCControlResponse, Spec.Protocol.SetTimeProfileResponse, Spec.Protocol.SetTimeResponse] at hlen
     rcases r with _ | ⟨x0, _ | ⟨x1, _ | ⟨x2, _ | ⟨y, r⟩⟩⟩⟩ <;> simp at hlen
-    simp [List.lookup, Spec.Api.get, Spec.Api.succeeded, Spec.Api.card, okBool, cardResult, Spec.Api.simple, C01.v_val, Layout.names, Field.names, statusResult, Spec.Api.status, Spec.Protocol.ActivateAccessKeypadsResponse, Spec.Protocol.AddTaskResponse, Spec.Protocol.ClearTaskListResponse, Spec.Protocol.ClearTimeProfilesResponse, Spec.Protocol.DeleteCardResponse, Spec.Protocol.DeleteCardsResponse, Spec.Protocol.GetCardByIDResponse, Spec.Protocol.GetCardByIndexResponse, Spec.Protocol.GetCardsResponse, Spec.Protocol.GetDeviceResponse, Spec.Protocol.GetDoorControlStateResponse, Spec.Protocol.GetEventIndexResponse, Spec.Protocol.GetEventResponse, Spec.Protocol.GetListenerResponse, Spec.Protocol.GetStatusResponse, Spec.Protocol.GetTimeProfileResponse, Spec.Protocol.GetTimeResponse, Spec.Protocol.OpenDoorResponse, Spec.Protocol.PutCardResponse, Spec.Protocol.RecordSpecialEventsResponse, Spec.Protocol.RefreshTaskListResponse, Spec.Protocol.RestoreDefaultParametersResponse, Spec.Protocol.SetDoorControlStateResponse, Spec.Protocol.SetDoorPasscodesResponse, Spec.Protocol.SetEventIndexResponse, Spec.Protocol.SetFirstCardResponse, Spec.Protocol.SetInterlockResponse, Spec.Protocol.SetListenerResponse, Spec.Protocol.SetPCControlResponse, Spec.Protocol.SetTimeProfileResponse, Spec.Protocol.SetTimeResponse]
+    simp [List.lookup, Spec.Api.get, Spec.Api.succeeded, Spec.Api.card, okBool, cardResult, Spec.Api.simple, C01.v_val, Layout.names, Field.names, statusResult, statusEventOf, statusNoEvent, Spec.Api.status, Spec.Protocol.ActivateAccessKeypadsResponse, Spec.Protocol.AddTaskResponse, Spec.Protocol.ClearTaskListResponse, Spec.Protocol.ClearTimeProfilesResponse, Spec.Protocol.DeleteCardResponse, Spec.Protocol.DeleteCardsResponse, Spec.Protocol.GetCardByIDResponse, Spec.Protocol.GetCardByIndexResponse, Spec.Protocol.GetCardsResponse, Spec.Protocol.GetDeviceResponse, Spec.Protocol.GetDoorControlStateResponse, Spec.Protocol.GetEventIndexResponse, Spec.Protocol.GetEventResponse, Spec.Protocol.GetListenerResponse, Spec.Protocol.GetStatusResponse, Spec.Protocol.GetTimeProfileResponse, Spec.Protocol.GetTimeResponse, Spec.Protocol.OpenDoorResponse, Spec.Protocol.PutCardResponse, Spec.Protocol.RecordSpecialEventsResponse, Spec.Protocol.RefreshTaskListResponse, Spec.Protocol.RestoreDefaultParametersResponse, Spec.Protocol.SetDoorControlStateResponse, Spec.Protocol.SetDoorPasscodesResponse, Spec.Protocol.SetEventIndexResponse, Spec.Protocol.SetFirstCardResponse, Spec.Protocol.SetInterlockResponse, Spec.Protocol.SetListenerResponse, Spec.Protocol.SetPCControlResponse, Spec.Protocol.SetTimeProfileResponse, Spec.Protocol.SetTimeResponse]
   · refine ⟨_, rfl, ?_⟩
     intro args r hlen hsys
     simp only [Layout.names, Field.names, List.flatMap_cons, List.flatMap_nil, List.append_nil, List.cons_append, List.nil_append, List.length_cons, List.length_nil, Spec.Protocol.ActivateAccessKeypadsResponse, Spec.Protocol.AddTaskResponse, Spec.Protocol.ClearTaskListResponse, Spec.Protocol.ClearTimeProfilesResponse, Spec.Protocol.DeleteCardResponse, Spec.Protocol.DeleteCardsResponse, Spec.Protocol.GetCardByIDResponse, Spec.Protocol.GetCardByIndexResponse, Spec.Protocol.GetCardsResponse, Spec.Protocol.GetDeviceResponse, Spec.Protocol.GetDoorControlStateResponse, Spec.Protocol.GetEventIndexResponse, Spec.Protocol.GetEventResponse, Spec.Protocol.GetListenerResponse, Spec.Protocol.GetStatusResponse, Spec.Protocol.GetTimeProfileResponse, Spec.Protocol.GetTimeResponse, Spec.Protocol.OpenDoorResponse, Spec.Protocol.PutCardResponse, Spec.Protocol.RecordSpecialEventsResponse, Spec.Protocol.RefreshTaskListResponse, Spec.Protocol.RestoreDefaultParametersResponse, Spec.Protocol.SetDoorControlStateResponse, Spec.Protocol.SetDoorPasscodesResponse, Spec.Protocol.SetEventIndexResponse, Spec.Protocol.SetFirstCardResponse, Spec.Protocol.SetInterlockResponse, Spec.Protocol.SetListenerResponse, Spec.Protocol.SetPCControlResponse, Spec.Protocol.SetTimeProfileResponse, Spec.Protocol.SetTimeResponse] at hlen
     rcases r with _ | ⟨x0, _ | ⟨x1, _ | ⟨x2, _ | ⟨y, r⟩⟩⟩⟩ <;> simp at hlen
-    simp [List.lookup, Spec.Api.get, Spec.Api.succeeded, Spec.Api.card, okBool, cardResult, Spec.Api.simple, C01.v_val, Layout.names, Field.names, statusResult, Spec.Api.status, Spec.Protocol.ActivateAccessKeypadsResponse, Spec.Protocol.AddTaskResponse, Spec.Protocol.ClearTaskListResponse, Spec.Protocol.ClearTimeProfilesResponse, Spec.Protocol.DeleteCardResponse, Spec.Protocol.DeleteCardsResponse, Spec.Protocol.GetCardByIDResponse, Spec.Protocol.GetCardByIndexResponse, Spec.Protocol.GetCardsResponse, Spec.Protocol.GetDeviceResponse, Spec.Protocol.GetDoorControlStateResponse, Spec.Protocol.GetEventIndexResponse, Spec.Protocol.GetEventResponse, Spec.Protocol.GetListenerResponse, Spec.Protocol.GetStatusResponse, Spec.Protocol.GetTimeProfileResponse, Spec.Protocol.GetTimeResponse, Spec.Protocol.OpenDoorResponse, Spec.Protocol.PutCardResponse, Spec.Protocol.RecordSpecialEventsResponse, Spec.Protocol.RefreshTaskListResponse, Spec.Protocol.RestoreDefaultParametersResponse, Spec.Protocol.SetDoorControlStateResponse, Spec.Protocol.SetDoorPasscodesResponse, Spec.Protocol.SetEventIndexResponse, Spec.Protocol.SetFirstCardResponse, Spec.Protocol.SetInterlockResponse, Spec.Protocol.SetListenerResponse, Spec.Protocol.SetPCControlResponse, Spec.Protocol.SetTimeProfileResponse, Spec.Protocol.SetTimeResponse]
+    simp [List.lookup, Spec.Api.get, Spec.Api.succeeded, Spec.Api.card, okBool, cardResult, Spec.Api.simple, C01.v_val, Layout.names, Field.names, statusResult, statusEventOf, statusNoEvent, Spec.Api.status, Spec.Protocol.ActivateAccessKeypadsResponse, Spec.Protocol.AddTaskResponse, Spec.Protocol.ClearTaskListResponse, Spec.Protocol.ClearTimeProfilesResponse, Spec.Protocol.DeleteCardResponse, Spec.Protocol.DeleteCardsResponse, Spec.Protocol.GetCardByIDResponse, Spec.Protocol.GetCardByIndexResponse, Spec.Protocol.GetCardsResponse, Spec.Protocol.GetDeviceResponse, Spec.Protocol.GetDoorControlStateResponse, Spec.Protocol.GetEventIndexResponse, Spec.Protocol.GetEventResponse, Spec.Protocol.GetListenerResponse, Spec.Protocol.GetStatusResponse, Spec.Protocol.GetTimeProfileResponse, Spec.Protocol.GetTimeResponse, Spec.Protocol.OpenDoorResponse, Spec.Protocol.PutCardResponse, Spec.Protocol.RecordSpecialEventsResponse, Spec.Protocol.RefreshTaskListResponse, Spec.Protocol.RestoreDefaultParametersResponse, Spec.Protocol.SetDoorControlStateResponse, Spec.Protocol.SetDoorPasscodesResponse, Spec.Protocol.SetEventIndexResponse, Spec.Protocol.SetFirstCardResponse, Spec.Protocol.SetInterlockResponse, Spec.Protocol.SetListenerResponse, Spec.Protocol.SetPCControlResponse, Spec.Protocol.SetTimeProfileResponse, Spec.Protocol.SetTimeResponse]
   · refine ⟨_, rfl, ?_⟩
     intro args r hlen hsys
     simp only [Layout.names, Field.names, List.flatMap_cons, List.flatMap_nil, List.append_nil, List.cons_append, List.nil_append, List.length_cons, List.length_nil, Spec.Protocol.ActivateAccessKeypadsResponse, Spec.Protocol.AddTaskResponse, Spec.Protocol.ClearTaskListResponse, Spec.Protocol.ClearTimeProfilesResponse, Spec.Protocol.DeleteCardResponse, Spec.Protocol.DeleteCardsResponse, Spec.Protocol.GetCardByIDResponse, Spec.Protocol.GetCardByIndexResponse, Spec.Protocol.GetCardsResponse, Spec.Protocol.GetDeviceResponse, Spec.Protocol.GetDoorControlStateResponse, Spec.Protocol.GetEventIndexResponse, Spec.Protocol.GetEventResponse, Spec.Protocol.GetListenerResponse, Spec.Protocol.GetStatusResponse, Spec.Protocol.GetTimeProfileResponse, Spec.Protocol.GetTimeResponse, Spec.Protocol.OpenDoorResponse, Spec.Protocol.PutCardResponse, Spec.Protocol.RecordSpecialEventsResponse, Spec.Protocol.RefreshTaskListResponse, Spec.Protocol.RestoreDefaultParametersResponse, Spec.Protocol.SetDoorControlStateResponse, Spec.Protocol.SetDoorPasscodesResponse, Spec.Protocol.SetEventIndexResponse, Spec.Protocol.SetFirstCardResponse, Spec.Protocol.SetInterlockResponse, Spec.Protocol.SetListenerResponse, Spec.Protocol.SetPCControlResponse, Spec.Protocol.SetTimeProfileResponse, Spec.Protocol.SetTimeResponse] at hlen
     rcases r with _ | ⟨x0, _ | ⟨x1, _ | ⟨x2, _ | ⟨y, r⟩⟩⟩⟩ <;> simp at hlen
-    simp [List.lookup, Spec.Api.get, Spec.Api.succeeded, Spec.Api.card, okBool, cardResult, Spec.Api.simple, C01.v_val, Layout.names, Field.names, statusResult, Spec.Api.status, Spec.Protocol.ActivateAccessKeypadsResponse, Spec.Protocol.AddTaskResponse, Spec.Protocol.ClearTaskListResponse, Spec.Protocol.ClearTimeProfilesResponse, Spec.Protocol.DeleteCardResponse, Spec.Protocol.DeleteCardsResponse, Spec.Protocol.GetCardByIDResponse, Spec.Protocol.GetCardByIndexResponse, Spec.Protocol.GetCardsResponse, Spec.Protocol.GetDeviceResponse, Spec.Protocol.GetDoorControlStateResponse, Spec.Protocol.GetEventIndexResponse, Spec.Protocol.GetEventResponse, Spec.Protocol.GetListenerResponse, Spec.Protocol.GetStatusResponse, Spec.Protocol.GetTimeProfileResponse, Spec.Protocol.GetTimeResponse, Spec.Protocol.OpenDoorResponse, Spec.Protocol.PutCardResponse, Spec.Protocol.RecordSpecialEventsResponse, Spec.Protocol.RefreshTaskListResponse, Spec.Protocol.RestoreDefaultParametersResponse, Spec.Protocol.SetDoorControlStateResponse, Spec.Protocol.SetDoorPasscodesResponse, Spec.Protocol.SetEventIndexResponse, Spec.Protocol.SetFirstCardResponse, Spec.Protocol.SetInterlockResponse, Spec.Protocol.SetListenerResponse, Spec.Protocol.SetPCControlResponse, Spec.Protocol.SetTimeProfileResponse, Spec.Protocol.SetTimeResponse]
+    simp [List.lookup, Spec.Api.get, Spec.Api.succeeded, Spec.Api.card, okBool, cardResult, Spec.Api.simple, C01.v_val, Layout.names, Field.names, statusResult, statusEventOf, statusNoEvent, Spec.Api.status, Spec.Protocol.ActivateAccessKeypadsResponse, Spec.Protocol.AddTaskResponse, Spec.Protocol.ClearTaskListResponse, Spec.Protocol.ClearTimeProfilesResponse, Spec.Protocol.DeleteCardResponse, Spec.Protocol.DeleteCardsResponse, Spec.Protocol.GetCardByIDResponse, Spec.Protocol.GetCardByIndexResponse, Spec.Protocol.GetCardsResponse, Spec.Protocol.GetDeviceResponse, Spec.Protocol.GetDoorControlStateResponse, Spec.Protocol.GetEventIndexResponse, Spec.Protocol.GetEventResponse, Spec.Protocol.GetListenerResponse, Spec.Protocol.GetStatusResponse, Spec.Protocol.GetTimeProfileResponse, Spec.Protocol.GetTimeResponse, Spec.Protocol.OpenDoorResponse, Spec.Protocol.PutCardResponse, Spec.Protocol.RecordSpecialEventsResponse, Spec.Protocol.RefreshTaskListResponse, Spec.Protocol.RestoreDefaultParametersResponse, Spec.Protocol.SetDoorControlStateResponse, Spec.Protocol.SetDoorPasscodesResponse, Spec.Protocol.SetEventIndexResponse, Spec.Protocol.SetFirstCardResponse, Spec.Protocol.SetInterlockResponse, Spec.Protocol.SetListenerResponse, Spec.Protocol.SetPCControlResponse, Spec.Protocol.SetTimeProfileResponse, Spec.Protocol.SetTimeResponse]
   · refine ⟨_, rfl, ?_⟩
     intro args r hlen hsys
     simp only [Layout.names, Field.names, List.flatMap_cons, List.flatMap_nil, List.append_nil, List.cons_append, List.nil_append, List.length_cons, List.length_nil, Spec.Protocol.ActivateAccessKeypadsResponse, Spec.Protocol.AddTaskResponse, Spec.Protocol.ClearTaskListResponse, Spec.Protocol.ClearTimeProfilesResponse, Spec.Protocol.DeleteCardResponse, Spec.Protocol.DeleteCardsResponse, Spec.Protocol.GetCardByIDResponse, Spec.Protocol.GetCardByIndexResponse, Spec.Protocol.GetCardsResponse, Spec.Protocol.GetDeviceResponse, Spec.Protocol.GetDoorControlStateResponse, Spec.Protocol.GetEventIndexResponse, Spec.Protocol.GetEventResponse, Spec.Protocol.GetListenerResponse, Spec.Protocol.GetStatusResponse, Spec.Protocol.GetTimeProfileResponse, Spec.Protocol.GetTimeResponse, Spec.Protocol.OpenDoorResponse, Spec.Protocol.PutCardResponse, Spec.Protocol.RecordSpecialEventsResponse, Spec.Protocol.RefreshTaskListResponse, Spec.Protocol.RestoreDefaultParametersResponse, Spec.Protocol.SetDoorControlStateResponse, Spec.Protocol.SetDoorPasscodesResponse, Spec.Protocol.SetEventIndexResponse, Spec.Protocol.SetFirstCardResponse, Spec.Protocol.SetInterlockResponse, Spec.Protocol.SetListenerResponse, Spec.Protocol.SetPCControlResponse, Spec.Protocol.SetTimeProfileResponse, Spec.Protocol.SetTimeResponse] at hlen
     rcases r with _ | ⟨x0, _ | ⟨x1, _ | ⟨x2, _ | ⟨y, r⟩⟩⟩⟩ <;> simp at hlen
-    simp [List.lookup, Spec.Api.get, Spec.Api.succeeded, Spec.Api.card, okBool, cardResult, Spec.Api.simple, C01.v_val, Layout.names, Field.names, statusResult, Spec.Api.status, Spec.Protocol.ActivateAccessKeypadsResponse, Spec.Protocol.AddTaskResponse, Spec.Protocol.ClearTaskListResponse, Spec.Protocol.ClearTimeProfilesResponse, Spec.Protocol.DeleteCardResponse, Spec.Protocol.DeleteCardsResponse, Spec.Protocol.GetCardByIDResponse, Spec.Protocol.GetCardByIndexResponse, Spec.Protocol.GetCardsResponse, Spec.Protocol.GetDeviceResponse, Spec.Protocol.GetDoorControlStateResponse, Spec.Protocol.GetEventIndexResponse, Spec.Protocol.GetEventResponse, Spec.Protocol.GetListenerResponse, Spec.Protocol.GetStatusResponse, Spec.Protocol.GetTimeProfileResponse, Spec.Protocol.GetTimeResponse, Spec.Protocol.OpenDoorResponse, Spec.Protocol.PutCardResponse, Spec.Protocol.RecordSpecialEventsResponse, Spec.Protocol.RefreshTaskListResponse, Spec.Protocol.RestoreDefaultParametersResponse, Spec.Protocol.SetDoorControlStateResponse, Spec.Protocol.SetDoorPasscodesResponse, Spec.Protocol.SetEventIndexResponse, Spec.Protocol.SetFirstCardResponse, Spec.Protocol.SetInterlockResponse, Spec.Protocol.SetListenerResponse, Spec.Protocol.SetPCControlResponse, Spec.Protocol.SetTimeProfileResponse, Spec.Protocol.SetTimeResponse]
+    simp [List.lookup, Spec.Api.get, Spec.Api.succeeded, Spec.Api.card, okBool, cardResult, Spec.Api.simple, C01.v_val, Layout.names, Field.names, statusResult, statusEventOf, statusNoEvent, Spec.Api.status, Spec.Protocol.ActivateAccessKeypadsResponse, Spec.Protocol.AddTaskResponse, Spec.Protocol.ClearTaskListResponse, Spec.Protocol.ClearTimeProfilesResponse, Spec.Protocol.DeleteCardResponse, Spec.Protocol.DeleteCardsResponse, Spec.Protocol.GetCardByIDResponse, Spec.Protocol.GetCardByIndexResponse, Spec.Protocol.GetCardsResponse, Spec.Protocol.GetDeviceResponse, Spec.Protocol.GetDoorControlStateResponse, Spec.Protocol.GetEventIndexResponse, Spec.Protocol.GetEventResponse, Spec.Protocol.GetListenerResponse, Spec.Protocol.GetStatusResponse, Spec.Protocol.GetTimeProfileResponse, Spec.Protocol.GetTimeResponse, Spec.Protocol.OpenDoorResponse, Spec.Protocol.PutCardResponse, Spec.Protocol.RecordSpecialEventsResponse, Spec.Protocol.RefreshTaskListResponse, Spec.Protocol.RestoreDefaultParametersResponse, Spec.Protocol.SetDoorControlStateResponse, Spec.Protocol.SetDoorPasscodesResponse, Spec.Protocol.SetEventIndexResponse, Spec.Protocol.SetFirstCardResponse, Spec.Protocol.SetInterlockResponse, Spec.Protocol.SetListenerResponse, Spec.Protocol.SetPCControlResponse, Spec.Protocol.SetTimeProfileResponse, Spec.Protocol.SetTimeResponse]
   · refine ⟨_, rfl, ?_⟩
     intro args r hlen hsys
     simp only [Layout.names, Field.names, List.flatMap_cons, List.flatMap_nil, List.append_nil, List.cons_append, List.nil_append, List.length_cons, List.length_nil, Spec.Protocol.ActivateAccessKeypadsResponse, Spec.Protocol.AddTaskResponse, Spec.Protocol.ClearTaskListResponse, Spec.Protocol.ClearTimeProfilesResponse, Spec.Protocol.DeleteCardResponse, Spec.Protocol.DeleteCardsResponse, Spec.Protocol.GetCardByIDResponse, Spec.Protocol.GetCardByIndexResponse, Spec.Protocol.GetCardsResponse, Spec.Protocol.GetDeviceResponse, Spec.Protocol.GetDoorControlStateResponse, Spec.Protocol.GetEventIndexResponse, Spec.Protocol.GetEventResponse, Spec.Protocol.GetListenerResponse, Spec.Protocol.GetStatusResponse, Spec.Protocol.GetTimeProfileResponse, Spec.Protocol.GetTimeResponse, Spec.Protocol.OpenDoorResponse, Spec.Protocol.PutCardResponse, Spec.Protocol.RecordSpecialEventsResponse, Spec.Protocol.RefreshTaskListResponse, Spec.Protocol.RestoreDefaultParametersResponse, Spec.Protocol.SetDoorControlStateResponse, Spec.Protocol.SetDoorPasscodesResponse, Spec.Protocol.SetEventIndexResponse, Spec.Protocol.SetFirstCardResponse, Spec.Protocol.SetInterlockResponse, Spec.Protocol.SetListenerResponse, Spec.Protocol.SetPCControlResponse, Spec.Protocol.SetTimeProfileResponse, Spec.Protocol.SetTimeResponse] at hlen
     rcases r with _ | ⟨x0, _ | ⟨x1, _ | ⟨x2, _ | ⟨y, r⟩⟩⟩⟩ <;> simp at hlen
-    simp [List.lookup, Spec.Api.get, Spec.Api.succeeded, Spec.Api.card, okBool, cardResult, Spec.Api.simple, C01.v_val, Layout.names, Field.names, statusResult, Spec.Api.status, Spec.Protocol.ActivateAccessKeypadsResponse, Spec.Protocol.AddTaskResponse, Spec.Protocol.ClearTaskListResponse, Spec.Protocol.ClearTimeProfilesResponse, Spec.Protocol.DeleteCardResponse, Spec.Protocol.DeleteCardsResponse, Spec.Protocol.GetCardByIDResponse, Spec.Protocol.GetCardByIndexResponse, Spec.Protocol.GetCardsResponse, Spec.Protocol.GetDeviceResponse, Spec.Protocol.GetDoorControlStateResponse, Spec.Protocol.GetEventIndexResponse, Spec.Protocol.GetEventResponse, Spec.Protocol.GetListenerResponse, Spec.Protocol.GetStatusResponse, Spec.Protocol.GetTimeProfileResponse, Spec.Protocol.GetTimeResponse, Spec.Protocol.OpenDoorResponse, Spec.Protocol.PutCardResponse, Spec.Protocol.RecordSpecialEventsResponse, Spec.Protocol.RefreshTaskListResponse, Spec.Protocol.RestoreDefaultParametersResponse, Spec.Protocol.SetDoorControlStateResponse, Spec.Protocol.SetDoorPasscodesResponse, Spec.Protocol.SetEventIndexResponse, Spec.Protocol.SetFirstCardResponse, Spec.Protocol.SetInterlockResponse, Spec.Protocol.SetListenerResponse, Spec.Protocol.SetPCControlResponse, Spec.Protocol.SetTimeProfileResponse, Spec.Protocol.SetTimeResponse]
+    simp [List.lookup, Spec.Api.get, Spec.Api.succeeded, Spec.Api.card, okBool, cardResult, Spec.Api.simple, C01.v_val, Layout.names, Field.names, statusResult, statusEventOf, statusNoEvent, Spec.Api.status, Spec.Protocol.ActivateAccessKeypadsResponse, Spec.Protocol.AddTaskResponse, Spec.Protocol.ClearTaskListResponse, Spec.Protocol.ClearTimeProfilesResponse, Spec.Protocol.DeleteCardResponse, Spec.Protocol.DeleteCardsResponse, Spec.Protocol.GetCardByIDResponse, Spec.Protocol.GetCardByIndexResponse, Spec.Protocol.GetCardsResponse, Spec.Protocol.GetDeviceResponse, Spec.Protocol.GetDoorControlStateResponse, Spec.Protocol.GetEventIndexResponse, Spec.Protocol.GetEventResponse, Spec.Protocol.GetListenerResponse, Spec.Protocol.GetStatusResponse, Spec.Protocol.GetTimeProfileResponse, Spec.Protocol.GetTimeResponse, Spec.Protocol.OpenDoorResponse, Spec.Protocol.PutCardResponse, Spec.Protocol.RecordSpecialEventsResponse, Spec.Protocol.RefreshTaskListResponse, Spec.Protocol.RestoreDefaultParametersResponse, Spec.Protocol.SetDoorControlStateResponse, Spec.Protocol.SetDoorPasscodesResponse, Spec.Protocol.SetEventIndexResponse, Spec.Protocol.SetFirstCardResponse, Spec.Protocol.SetInterlockResponse, Spec.Protocol.SetListenerResponse, Spec.Protocol.SetPCControlResponse, Spec.Protocol.SetTimeProfileResponse, Spec.Protocol.SetTimeResponse]
   · refine ⟨_, rfl, ?_⟩
     intro args r hlen hsys
     simp only [Layout.names, Field.names, List.flatMap_cons, List.flatMap_nil, List.append_nil, List.cons_append, List.nil_append, List.length_cons, List.length_nil, Spec.Protocol.ActivateAccessKeypadsResponse, Spec.Protocol.AddTaskResponse, Spec.Protocol.ClearTaskListResponse, Spec.Protocol.ClearTimeProfilesResponse, Spec.Protocol.DeleteCardResponse, Spec.Protocol.DeleteCardsResponse, Spec.Protocol.GetCardByIDResponse, Spec.Protocol.GetCardByIndexResponse, Spec.Protocol.GetCardsResponse, Spec.Protocol.GetDeviceResponse, Spec.Protocol.GetDoorControlStateResponse, Spec.Protocol.GetEventIndexResponse, Spec.Protocol.GetEventResponse, Spec.Protocol.GetListenerResponse, Spec.Protocol.GetStatusResponse, Spec.Protocol.GetTimeProfileResponse, Spec.Protocol.GetTimeResponse, Spec.Protocol.OpenDoorResponse, Spec.Protocol.PutCardResponse, Spec.Protocol.RecordSpecialEventsResponse, Spec.Protocol.RefreshTaskListResponse, Spec.Protocol.RestoreDefaultParametersResponse, Spec.Protocol.SetDoorControlStateResponse, Spec.Protocol.SetDoorPasscodesResponse, Spec.Protocol.SetEventIndexResponse, Spec.Protocol.SetFirstCardResponse, Spec.Protocol.SetInterlockResponse, Spec.Protocol.SetListenerResponse, Spec.Protocol.SetPCControlResponse, Spec.Protocol.SetTimeProfileResponse, Spec.Protocol.SetTimeResponse] at hlen
     rcases r with _ | ⟨x0, _ | ⟨x1, _ | ⟨x2, _ | ⟨y, r⟩⟩⟩⟩ <;> simp at hlen
-    simp [List.lookup, Spec.Api.get, Spec.Api.succeeded, Spec.Api.card, okBool, cardResult, Spec.Api.simple, C01.v_val, Layout.names, Field.names, statusResult, Spec.Api.status, Spec.Protocol.ActivateAccessKeypadsResponse, Spec.Protocol.AddTaskResponse, Spec.Protocol.ClearTaskListResponse, Spec.Protocol.ClearTimeProfilesResponse, Spec.Protocol.DeleteCardResponse, Spec.Protocol.DeleteCardsResponse, Spec.Protocol.GetCardByIDResponse, Spec.Protocol.GetCardByIndexResponse, Spec.Protocol.GetCardsResponse, Spec.Protocol.GetDeviceResponse, Spec.Protocol.GetDoorControlStateResponse, Spec.Protocol.GetEventIndexResponse, Spec.Protocol.GetEventResponse, Spec.Protocol.GetListenerResponse, Spec.Protocol.GetStatusResponse, Spec.Protocol.GetTimeProfileResponse, Spec.Protocol.GetTimeResponse, Spec.Protocol.OpenDoorResponse, Spec.Protocol.PutCardResponse, Spec.Protocol.RecordSpecialEventsResponse, Spec.Protocol.RefreshTaskListResponse, Spec.Protocol.RestoreDefaultParametersResponse, Spec.Protocol.SetDoorControlStateResponse, Spec.Protocol.SetDoorPasscodesResponse, Spec.Protocol.SetEventIndexResponse, Spec.Protocol.SetFirstCardResponse, Spec.Protocol.SetInterlockResponse, Spec.Protocol.SetListenerResponse, Spec.Protocol.SetPCControlResponse, Spec.Protocol.SetTimeProfileResponse, Spec.Protocol.SetTimeResponse]
+    simp [List.lookup, Spec.Api.get, Spec.Api.succeeded, Spec.Api.card, okBool, cardResult, Spec.Api.simple, C01.v_val, Layout.names, Field.names, statusResult, statusEventOf, statusNoEvent, Spec.Api.status, Spec.Protocol.ActivateAccessKeypadsResponse, Spec.Protocol.AddTaskResponse, Spec.Protocol.ClearTaskListResponse, Spec.Protocol.ClearTimeProfilesResponse, Spec.Protocol.DeleteCardResponse, Spec.Protocol.DeleteCardsResponse, Spec.Protocol.GetCardByIDResponse, Spec.Protocol.GetCardByIndexResponse, Spec.Protocol.GetCardsResponse, Spec.Protocol.GetDeviceResponse, Spec.Protocol.GetDoorControlStateResponse, Spec.Protocol.GetEventIndexResponse, Spec.Protocol.GetEventResponse, Spec.Protocol.GetListenerResponse, Spec.Protocol.GetStatusResponse, Spec.Protocol.GetTimeProfileResponse, Spec.Protocol.GetTimeResponse, Spec.Protocol.OpenDoorResponse, Spec.Protocol.PutCardResponse, Spec.Protocol.RecordSpecialEventsResponse, Spec.Protocol.RefreshTaskListResponse, Spec.Protocol.RestoreDefaultParametersResponse, Spec.Protocol.SetDoorControlStateResponse, Spec.Protocol.SetDoorPasscodesResponse, Spec.Protocol.SetEventIndexResponse, Spec.Protocol.SetFirstCardResponse, Spec.Protocol.SetInterlockResponse, Spec.Protocol.SetListenerResponse, Spec.Protocol.SetPCControlResponse, Spec.Protocol.SetTimeProfileResponse, Spec.Protocol.SetTimeResponse]
   · refine ⟨_, rfl, ?_⟩
     intro args r hlen hsys
     simp only [Layout.names, Field.names, List.flatMap_cons, List.flatMap_nil, List.append_nil, List.cons_append, List.nil_append, List.length_cons, List.length_nil, Spec.Protocol.ActivateAccessKeypadsResponse, Spec.Protocol.AddTaskResponse, Spec.Protocol.ClearTaskListResponse, Spec.Protocol.ClearTimeProfilesResponse, Spec.Protocol.DeleteCardResponse, Spec.Protocol.DeleteCardsResponse, Spec.Protocol.GetCardByIDResponse, Spec.Protocol.GetCardByIndexResponse, Spec.Protocol.GetCardsResponse, Spec.Protocol.GetDeviceResponse, Spec.Protocol.GetDoorControlStateResponse, Spec.Protocol.GetEventIndexResponse, Spec.Protocol.GetEventResponse, Spec.Protocol.GetListenerResponse, Spec.Protocol.GetStatusResponse, Spec.Protocol.GetTimeProfileResponse, Spec.Protocol.GetTimeResponse, Spec.Protocol.OpenDoorResponse, Spec.Protocol.PutCardResponse, Spec.Protocol.RecordSpecialEventsResponse, Spec.Protocol.RefreshTaskListResponse, Spec.Protocol.RestoreDefaultParametersResponse, Spec.Protocol.SetDoorControlStateResponse, Spec.Protocol.SetDoorPasscodesResponse, Spec.Protocol.SetEventIndexResponse, Spec.Protocol.SetFirstCardResponse, Spec.Protocol.SetInterlockResponse, Spec.Protocol.SetListenerResponse, Spec.Protocol.SetPCControlResponse, Spec.Protocol.SetTimeProfileResponse, Spec.Protocol.SetTimeResponse] at hlen
     rcases r with _ | ⟨x0, _ | ⟨x1, _ | ⟨x2, _ | ⟨x3, _ | ⟨x4, _ | ⟨x5, _ | ⟨x6, _ | ⟨x7, _ | ⟨x8, _ | ⟨x9, _ | ⟨y, r⟩⟩⟩⟩⟩⟩⟩⟩⟩⟩⟩ <;> simp at hlen
-    simp [List.lookup, Spec.Api.get, Spec.Api.succeeded, Spec.Api.card, okBool, cardResult, Spec.Api.simple, C01.v_val, Layout.names, Field.names, statusResult, Spec.Api.status, Spec.Protocol.ActivateAccessKeypadsResponse, Spec.Protocol.AddTaskResponse, Spec.Protocol.ClearTaskListResponse, Spec.Protocol.ClearTimeProfilesResponse, Spec.Protocol.DeleteCardResponse, Spec.Protocol.DeleteCardsResponse, Spec.Protocol.GetCardByIDResponse, Spec.Protocol.GetCardByIndexResponse, Spec.Protocol.GetCardsResponse, Spec.Protocol.GetDeviceResponse, Spec.Protocol.GetDoorControlStateResponse, Spec.Protocol.GetEventIndexResponse, Spec.Protocol.GetEventResponse, Spec.Protocol.GetListenerResponse, Spec.Protocol.GetStatusResponse, Spec.Protocol.GetTimeProfileResponse, Spec.Protocol.GetTimeResponse, Spec.Protocol.OpenDoorResponse, Spec.Protocol.PutCardResponse, Spec.Protocol.RecordSpecialEventsResponse, Spec.Protocol.RefreshTaskListResponse, Spec.Protocol.RestoreDefaultParametersResponse, Spec.Protocol.SetDoorControlStateResponse, Spec.Protocol.SetDoorPasscodesResponse, Spec.Protocol.SetEventIndexResponse, Spec.Protocol.SetFirstCardResponse, Spec.Protocol.SetInterlockResponse, Spec.Protocol.SetListenerResponse, Spec.Protocol.SetPCControlResponse, Spec.Protocol.SetTimeProfileResponse, Spec.Protocol.SetTimeResponse]
+    simp [List.lookup, Spec.Api.get, Spec.Api.succeeded, Spec.Api.card, okBool, cardResult, Spec.Api.simple, C01.v_val, Layout.names, Field.names, statusResult, statusEventOf, statusNoEvent, Spec.Api.status, Spec.Protocol.ActivateAccessKeypadsResponse, Spec.Protocol.AddTaskResponse, Spec.Protocol.ClearTaskListResponse, Spec.Protocol.ClearTimeProfilesResponse, Spec.Protocol.DeleteCardResponse, Spec.Protocol.DeleteCardsResponse, Spec.Protocol.GetCardByIDResponse, Spec.Protocol.GetCardByIndexResponse, Spec.Protocol.GetCardsResponse, Spec.Protocol.GetDeviceResponse, Spec.Protocol.GetDoorControlStateResponse, Spec.Protocol.GetEventIndexResponse, Spec.Protocol.GetEventResponse, Spec.Protocol.GetListenerResponse, Spec.Protocol.GetStatusResponse, Spec.Protocol.GetTimeProfileResponse, Spec.Protocol.GetTimeResponse, Spec.Protocol.OpenDoorResponse, Spec.Protocol.PutCardResponse, Spec.Protocol.RecordSpecialEventsResponse, Spec.Protocol.RefreshTaskListResponse, Spec.Protocol.RestoreDefaultParametersResponse, Spec.Protocol.SetDoorControlStateResponse, Spec.Protocol.SetDoorPasscodesResponse, Spec.Protocol.SetEventIndexResponse, Spec.Protocol.SetFirstCardResponse, Spec.Protocol.SetInterlockResponse, Spec.Protocol.SetListenerResponse, Spec.Protocol.SetPCControlResponse, Spec.Protocol.SetTimeProfileResponse, Spec.Protocol.SetTimeResponse]
     cases x3 <;> cases x2 <;> simp
 
   · refine ⟨_, rfl, ?_⟩
     intro args r hlen hsys
     simp only [Layout.names, Field.names, List.flatMap_cons, List.flatMap_nil, List.append_nil, List.cons_append, List.nil_append, List.length_cons, List.length_nil, Spec.Protocol.ActivateAccessKeypadsResponse, Spec.Protocol.AddTaskResponse, Spec.Protocol.ClearTaskListResponse, Spec.Protocol.ClearTimeProfilesResponse, Spec.Protocol.DeleteCardResponse, Spec.Protocol.DeleteCardsResponse, Spec.Protocol.GetCardByIDResponse, Spec.Protocol.GetCardByIndexResponse, Spec.Protocol.GetCardsResponse, Spec.Protocol.GetDeviceResponse, Spec.Protocol.GetDoorControlStateResponse, Spec.Protocol.GetEventIndexResponse, Spec.Protocol.GetEventResponse, Spec.Protocol.GetListenerResponse, Spec.Protocol.GetStatusResponse, Spec.Protocol.GetTimeProfileResponse, Spec.Protocol.GetTimeResponse, Spec.Protocol.OpenDoorResponse, Spec.Protocol.PutCardResponse, Spec.Protocol.RecordSpecialEventsResponse, Spec.Protocol.RefreshTaskListResponse, Spec.Protocol.RestoreDefaultParametersResponse, Spec.Protocol.SetDoorControlStateResponse, Spec.Protocol.SetDoorPasscodesResponse, Spec.Protocol.SetEventIndexResponse, Spec.Protocol.SetFirstCardResponse, Spec.Protocol.SetInterlockResponse, Spec.Protocol.SetListenerResponse, Spec.Protocol.SetPCControlResponse, Spec.Protocol.SetTimeProfileResponse, Spec.Protocol.SetTimeResponse] at hlen
     rcases r with _ | ⟨x0, _ | ⟨x1, _ | ⟨x2, _ | ⟨y, r⟩⟩⟩⟩ <;> simp at hlen
-    simp [List.lookup, Spec.Api.get, Spec.Api.succeeded, Spec.Api.card, okBool, cardResult, Spec.Api.simple, C01.v_val, Layout.names, Field.names, statusResult, Spec.Api.status, Spec.Protocol.ActivateAccessKeypadsResponse, Spec.Protocol.AddTaskResponse, Spec.Protocol.ClearTaskListResponse, Spec.Protocol.ClearTimeProfilesResponse, Spec.Protocol.DeleteCardResponse, Spec.Protocol.DeleteCardsResponse, Spec.Protocol.GetCardByIDResponse, Spec.Protocol.GetCardByIndexResponse, Spec.Protocol.GetCardsResponse, Spec.Protocol.GetDeviceResponse, Spec.Protocol.GetDoorControlStateResponse, Spec.Protocol.GetEventIndexResponse, Spec.Protocol.GetEventResponse, Spec.Protocol.GetListenerResponse, Spec.Protocol.GetStatusResponse, Spec.Protocol.GetTimeProfileResponse, Spec.Protocol.GetTimeResponse, Spec.Protocol.OpenDoorResponse, Spec.Protocol.PutCardResponse, Spec.Protocol.RecordSpecialEventsResponse, Spec.Protocol.RefreshTaskListResponse, Spec.Protocol.RestoreDefaultParametersResponse, Spec.Protocol.SetDoorControlStateResponse, Spec.Protocol.SetDoorPasscodesResponse, Spec.Protocol.SetEventIndexResponse, Spec.Protocol.SetFirstCardResponse, Spec.Protocol.SetInterlockResponse, Spec.Protocol.SetListenerResponse, Spec.Protocol.SetPCControlResponse, Spec.Protocol.SetTimeProfileResponse, Spec.Protocol.SetTimeResponse]
+    simp [List.lookup, Spec.Api.get, Spec.Api.succeeded, Spec.Api.card, okBool, cardResult, Spec.Api.simple, C01.v_val, Layout.names, Field.names, statusResult, statusEventOf, statusNoEvent, Spec.Api.status, Spec.Protocol.ActivateAccessKeypadsResponse, Spec.Protocol.AddTaskResponse, Spec.Protocol.ClearTaskListResponse, Spec.Protocol.ClearTimeProfilesResponse, Spec.Protocol.DeleteCardResponse, Spec.Protocol.DeleteCardsResponse, Spec.Protocol.GetCardByIDResponse, Spec.Protocol.GetCardByIndexResponse, Spec.Protocol.GetCardsResponse, Spec.Protocol.GetDeviceResponse, Spec.Protocol.GetDoorControlStateResponse, Spec.Protocol.GetEventIndexResponse, Spec.Protocol.GetEventResponse, Spec.Protocol.GetListenerResponse, Spec.Protocol.GetStatusResponse, Spec.Protocol.GetTimeProfileResponse, Spec.Protocol.GetTimeResponse, Spec.Protocol.OpenDoorResponse, Spec.Protocol.PutCardResponse, Spec.Protocol.RecordSpecialEventsResponse, Spec.Protocol.RefreshTaskListResponse, Spec.Protocol.RestoreDefaultParametersResponse, Spec.Protocol.SetDoorControlStateResponse, Spec.Protocol.SetDoorPasscodesResponse, Spec.Protocol.SetEventIndexResponse, Spec.Protocol.SetFirstCardResponse, Spec.Protocol.SetInterlockResponse, Spec.Protocol.SetListenerResponse, Spec.Protocol.SetPCControlResponse, Spec.Protocol.SetTimeProfileResponse, Spec.Protocol.SetTimeResponse]
   · refine ⟨_, rfl, ?_⟩
     intro args r hlen hsys
     simp only [Layout.names, Field.names, List.flatMap_cons, List.flatMap_nil, List.append_nil, List.cons_append, List.nil_append, List.length_cons, List.length_nil, Spec.Protocol.ActivateAccessKeypadsResponse, Spec.Protocol.AddTaskResponse, Spec.Protocol.ClearTaskListResponse, Spec.Protocol.ClearTimeProfilesResponse, Spec.Protocol.DeleteCardResponse, Spec.Protocol.DeleteCardsResponse, Spec.Protocol.GetCardByIDResponse, Spec.Protocol.GetCardByIndexResponse, Spec.Protocol.GetCardsResponse, Spec.Protocol.GetDeviceResponse, Spec.Protocol.GetDoorControlStateResponse, Spec.Protocol.GetEventIndexResponse, Spec.Protocol.GetEventResponse, Spec.Protocol.GetListenerResponse, Spec.Protocol.GetStatusResponse, Spec.Protocol.GetTimeProfileResponse, Spec.Protocol.GetTimeResponse, Spec.Protocol.OpenDoorResponse, Spec.Protocol.PutCardResponse, Spec.Protocol.RecordSpecialEventsResponse, Spec.Protocol.RefreshTaskListResponse, Spec.Protocol.RestoreDefaultParametersResponse, Spec.Protocol.SetDoorControlStateResponse, Spec.Protocol.SetDoorPasscodesResponse, Spec.Protocol.SetEventIndexResponse, Spec.Protocol.SetFirstCardResponse, Spec.Protocol.SetInterlockResponse, Spec.Protocol.SetListenerResponse, Spec.Protocol.SetPCControlResponse, Spec.Protocol.SetTimeProfileResponse, Spec.Protocol.SetTimeResponse] at hlen
     rcases r with _ | ⟨x0, _ | ⟨x1, _ | ⟨x2, _ | ⟨y, r⟩⟩⟩⟩ <;> simp at hlen
-    simp [List.lookup, Spec.Api.get, Spec.Api.succeeded, Spec.Api.card, okBool, cardResult, Spec.Api.simple, C01.v_val, Layout.names, Field.names, statusResult, Spec.Api.status, Spec.Protocol.ActivateAccessKeypadsResponse, Spec.Protocol.AddTaskResponse, Spec.Protocol.ClearTaskListResponse, Spec.Protocol.ClearTimeProfilesResponse, Spec.Protocol.DeleteCardResponse, Spec.Protocol.DeleteCardsResponse, Spec.Protocol.GetCardByIDResponse, Spec.Protocol.GetCardByIndexResponse, Spec.Protocol.GetCardsResponse, Spec.Protocol.GetDeviceResponse, Spec.Protocol.GetDoorControlStateResponse, Spec.Protocol.GetEventIndexResponse, Spec.Protocol.GetEventResponse, Spec.Protocol.GetListenerResponse, Spec.Protocol.GetStatusResponse, Spec.Protocol.GetTimeProfileResponse, Spec.Protocol.GetTimeResponse, Spec.Protocol.OpenDoorResponse, Spec.Protocol.PutCardResponse, Spec.Protocol.RecordSpecialEventsResponse, Spec.Protocol.RefreshTaskListResponse, Spec.Protocol.RestoreDefaultParametersResponse, Spec.Protocol.SetDoorControlStateResponse, Spec.Protocol.SetDoorPasscodesResponse, Spec.Protocol.SetEventIndexResponse, Spec.Protocol.SetFirstCardResponse, Spec.Protocol.SetInterlockResponse, Spec.Protocol.SetListenerResponse, Spec.Protocol.SetPCControlResponse, Spec.Protocol.SetTimeProfileResponse, Spec.Protocol.SetTimeResponse]
+    simp [List.lookup, Spec.Api.get, Spec.Api.succeeded, Spec.Api.card, okBool, cardResult, Spec.Api.simple, C01.v_val, Layout.names, Field.names, statusResult, statusEventOf, statusNoEvent, Spec.Api.status, Spec.Protocol.ActivateAccessKeypadsResponse, Spec.Protocol.AddTaskResponse, Spec.Protocol.ClearTaskListResponse, Spec.Protocol.ClearTimeProfilesResponse, Spec.Protocol.DeleteCardResponse, Spec.Protocol.DeleteCardsResponse, Spec.Protocol.GetCardByIDResponse, Spec.Protocol.GetCardByIndexResponse, Spec.Protocol.GetCardsResponse, Spec.Protocol.GetDeviceResponse, Spec.Protocol.GetDoorControlStateResponse, Spec.Protocol.GetEventIndexResponse, Spec.Protocol.GetEventResponse, Spec.Protocol.GetListenerResponse, Spec.Protocol.GetStatusResponse, Spec.Protocol.GetTimeProfileResponse, Spec.Protocol.GetTimeResponse, Spec.Protocol.OpenDoorResponse, Spec.Protocol.PutCardResponse, Spec.Protocol.RecordSpecialEventsResponse, Spec.Protocol.RefreshTaskListResponse, Spec.Protocol.RestoreDefaultParametersResponse, Spec.Protocol.SetDoorControlStateResponse, Spec.Protocol.SetDoorPasscodesResponse, Spec.Protocol.SetEventIndexResponse, Spec.Protocol.SetFirstCardResponse, Spec.Protocol.SetInterlockResponse, Spec.Protocol.SetListenerResponse, Spec.Protocol.SetPCControlResponse, Spec.Protocol.SetTimeProfileResponse, Spec.Protocol.SetTimeResponse]
     rfl
 
   · refine ⟨_, rfl, ?_⟩
     intro args r hlen hsys
     simp only [Layout.names, Field.names, List.flatMap_cons, List.flatMap_nil, List.append_nil, List.cons_append, List.nil_append, List.length_cons, List.length_nil, Spec.Protocol.ActivateAccessKeypadsResponse, Spec.Protocol.AddTaskResponse, Spec.Protocol.ClearTaskListResponse, Spec.Protocol.ClearTimeProfilesResponse, Spec.Protocol.DeleteCardResponse, Spec.Protocol.DeleteCardsResponse, Spec.Protocol.GetCardByIDResponse, Spec.Protocol.GetCardByIndexResponse, Spec.Protocol.GetCardsResponse, Spec.Protocol.GetDeviceResponse, Spec.Protocol.GetDoorControlStateResponse, Spec.Protocol.GetEventIndexResponse, Spec.Protocol.GetEventResponse, Spec.Protocol.GetListenerResponse, Spec.Protocol.GetStatusResponse, Spec.Protocol.GetTimeProfileResponse, Spec.Protocol.GetTimeResponse, Spec.Protocol.OpenDoorResponse, Spec.Protocol.PutCardResponse, Spec.Protocol.RecordSpecialEventsResponse, Spec.Protocol.RefreshTaskListResponse, Spec.Protocol.RestoreDefaultParametersResponse, Spec.Protocol.SetDoorControlStateResponse, Spec.Protocol.SetDoorPasscodesResponse, Spec.Protocol.SetEventIndexResponse, Spec.Protocol.SetFirstCardResponse, Spec.Protocol.SetInterlockResponse, Spec.Protocol.SetListenerResponse, Spec.Protocol.SetPCControlResponse, Spec.Protocol.SetTimeProfileResponse, Spec.Protocol.SetTimeResponse] at hlen
     rcases r with _ | ⟨x0, _ | ⟨x1, _ | ⟨x2, _ | ⟨y, r⟩⟩⟩⟩ <;> simp at hlen
-    simp [List.lookup, Spec.Api.get, Spec.Api.succeeded, Spec.Api.card, okBool, cardResult, Spec.Api.simple, C01.v_val, Layout.names, Field.names, statusResult, Spec.Api.status, Spec.Protocol.ActivateAccessKeypadsResponse, Spec.Protocol.AddTaskResponse, Spec.Protocol.ClearTaskListResponse, Spec.Protocol.ClearTimeProfilesResponse, Spec.Protocol.DeleteCardResponse, Spec.Protocol.DeleteCardsResponse, Spec.Protocol.GetCardByIDResponse, Spec.Protocol.GetCardByIndexResponse, Spec.Protocol.GetCardsResponse, Spec.Protocol.GetDeviceResponse, Spec.Protocol.GetDoorControlStateResponse, Spec.Protocol.GetEventIndexResponse, Spec.Protocol.GetEventResponse, Spec.Protocol.GetListenerResponse, Spec.Protocol.GetStatusResponse, Spec.Protocol.GetTimeProfileResponse, Spec.Protocol.GetTimeResponse, Spec.Protocol.OpenDoorResponse, Spec.Protocol.PutCardResponse, Spec.Protocol.RecordSpecialEventsResponse, Spec.Protocol.RefreshTaskListResponse, Spec.Protocol.RestoreDefaultParametersResponse, Spec.Protocol.SetDoorControlStateResponse, Spec.Protocol.SetDoorPasscodesResponse, Spec.Protocol.SetEventIndexResponse, Spec.Protocol.SetFirstCardResponse, Spec.Protocol.SetInterlockResponse, Spec.Protocol.SetListenerResponse, Spec.Protocol.SetPCControlResponse, Spec.Protocol.SetTimeProfileResponse, Spec.Protocol.SetTimeResponse]
+    simp [List.lookup, Spec.Api.get, Spec.Api.succeeded, Spec.Api.card, okBool, cardResult, Spec.Api.simple, C01.v_val, Layout.names, Field.names, statusResult, statusEventOf, statusNoEvent, Spec.Api.status, Spec.Protocol.ActivateAccessKeypadsResponse, Spec.Protocol.AddTaskResponse, Spec.Protocol.ClearTaskListResponse, Spec.Protocol.ClearTimeProfilesResponse, Spec.Protocol.DeleteCardResponse, Spec.Protocol.DeleteCardsResponse, Spec.Protocol.GetCardByIDResponse, Spec.Protocol.GetCardByIndexResponse, Spec.Protocol.GetCardsResponse, Spec.Protocol.GetDeviceResponse, Spec.Protocol.GetDoorControlStateResponse, Spec.Protocol.GetEventIndexResponse, Spec.Protocol.GetEventResponse, Spec.Protocol.GetListenerResponse, Spec.Protocol.GetStatusResponse, Spec.Protocol.GetTimeProfileResponse, Spec.Protocol.GetTimeResponse, Spec.Protocol.OpenDoorResponse, Spec.Protocol.PutCardResponse, Spec.Protocol.RecordSpecialEventsResponse, Spec.Protocol.RefreshTaskListResponse, Spec.Protocol.RestoreDefaultParametersResponse, Spec.Protocol.SetDoorControlStateResponse, Spec.Protocol.SetDoorPasscodesResponse, Spec.Protocol.SetEventIndexResponse, Spec.Protocol.SetFirstCardResponse, Spec.Protocol.SetInterlockResponse, Spec.Protocol.SetListenerResponse, Spec.Protocol.SetPCControlResponse, Spec.Protocol.SetTimeProfileResponse, Spec.Protocol.SetTimeResponse]
   · refine ⟨_, rfl, ?_⟩
     intro args r hlen hsys
     simp only [Layout.names, Field.names, List.flatMap_cons, List.flatMap_nil, List.append_nil, List.cons_append, List.nil_append, List.length_cons, List.length_nil, Spec.Protocol.ActivateAccessKeypadsResponse, Spec.Protocol.AddTaskResponse, Spec.Protocol.ClearTaskListResponse, Spec.Protocol.ClearTimeProfilesResponse, Spec.Protocol.DeleteCardResponse, Spec.Protocol.DeleteCardsResponse, Spec.Protocol.GetCardByIDResponse, Spec.Protocol.GetCardByIndexResponse, Spec.Protocol.GetCardsResponse, Spec.Protocol.GetDeviceResponse, Spec.Protocol.GetDoorControlStateResponse, Spec.Protocol.GetEventIndexResponse, Spec.Protocol.GetEventResponse, Spec.Protocol.GetListenerResponse, Spec.Protocol.GetStatusResponse, Spec.Protocol.GetTimeProfileResponse, Spec.Protocol.GetTimeResponse, Spec.Protocol.OpenDoorResponse, Spec.Protocol.PutCardResponse, Spec.Protocol.RecordSpecialEventsResponse, Spec.Protocol.RefreshTaskListResponse, Spec.Protocol.RestoreDefaultParametersResponse, Spec.Protocol.SetDoorControlStateResponse, Spec.Protocol.SetDoorPasscodesResponse, Spec.Protocol.SetEventIndexResponse, Spec.Protocol.SetFirstCardResponse, Spec.Protocol.SetInterlockResponse, Spec.Protocol.SetListenerResponse, Spec.Protocol.SetPCControlResponse, Spec.Protocol.SetTimeProfileResponse, Spec.Protocol.SetTimeResponse] at hlen
     rcases r with _ | ⟨x0, _ | ⟨x1, _ | ⟨x2, _ | ⟨y, r⟩⟩⟩⟩ <;> simp at hlen
-    simp [List.lookup, Spec.Api.get, Spec.Api.succeeded, Spec.Api.card, okBool, cardResult, Spec.Api.simple, C01.v_val, Layout.names, Field.names, statusResult, Spec.Api.status, Spec.Protocol.ActivateAccessKeypadsResponse, Spec.Protocol.AddTaskResponse, Spec.Protocol.ClearTaskListResponse, Spec.Protocol.ClearTimeProfilesResponse, Spec.Protocol.DeleteCardResponse, Spec.Protocol.DeleteCardsResponse, Spec.Protocol.GetCardByIDResponse, Spec.Protocol.GetCardByIndexResponse, Spec.Protocol.GetCardsResponse, Spec.Protocol.GetDeviceResponse, Spec.Protocol.GetDoorControlStateResponse, Spec.Protocol.GetEventIndexResponse, Spec.Protocol.GetEventResponse, Spec.Protocol.GetListenerResponse, Spec.Protocol.GetStatusResponse, Spec.Protocol.GetTimeProfileResponse, Spec.Protocol.GetTimeResponse, Spec.Protocol.OpenDoorResponse, Spec.Protocol.PutCardResponse, Spec.Protocol.RecordSpecialEventsResponse, Spec.Protocol.RefreshTaskListResponse, Spec.Protocol.RestoreDefaultParametersResponse, Spec.Protocol.SetDoorControlStateResponse, Spec.Protocol.SetDoorPasscodesResponse, Spec.Protocol.SetEventIndexResponse, Spec.Protocol.SetFirstCardResponse, Spec.Protocol.SetInterlockResponse, Spec.Protocol.SetListenerResponse, Spec.Protocol.SetPCControlResponse, Spec.Protocol.SetTimeProfileResponse, Spec.Protocol.SetTimeResponse]
+    simp [List.lookup, Spec.Api.get, Spec.Api.succeeded, Spec.Api.card, okBool, cardResult, Spec.Api.simple, C01.v_val, Layout.names, Field.names, statusResult, statusEventOf, statusNoEvent, Spec.Api.status, Spec.Protocol.ActivateAccessKeypadsResponse, Spec.Protocol.AddTaskResponse, Spec.Protocol.ClearTaskListResponse, Spec.Protocol.ClearTimeProfilesResponse, Spec.Protocol.DeleteCardResponse, Spec.Protocol.DeleteCardsResponse, Spec.Protocol.GetCardByIDResponse, Spec.Protocol.GetCardByIndexResponse, Spec.Protocol.GetCardsResponse, Spec.Protocol.GetDeviceResponse, Spec.Protocol.GetDoorControlStateResponse, Spec.Protocol.GetEventIndexResponse, Spec.Protocol.GetEventResponse, Spec.Protocol.GetListenerResponse, Spec.Protocol.GetStatusResponse, Spec.Protocol.GetTimeProfileResponse, Spec.Protocol.GetTimeResponse, Spec.Protocol.OpenDoorResponse, Spec.Protocol.PutCardResponse, Spec.Protocol.RecordSpecialEventsResponse, Spec.Protocol.RefreshTaskListResponse, Spec.Protocol.RestoreDefaultParametersResponse, Spec.Protocol.SetDoorControlStateResponse, Spec.Protocol.SetDoorPasscodesResponse, Spec.Protocol.SetEventIndexResponse, Spec.Protocol.SetFirstCardResponse, Spec.Protocol.SetInterlockResponse, Spec.Protocol.SetListenerResponse, Spec.Protocol.SetPCControlResponse, Spec.Protocol.SetTimeProfileResponse, Spec.Protocol.SetTimeResponse]
   · refine ⟨_, rfl, ?_⟩
     intro args r hlen hsys
     simp only [Layout.names, Field.names, List.flatMap_cons, List.flatMap_nil, List.append_nil, List.cons_append, List.nil_append, List.length_cons, List.length_nil, Spec.Protocol.ActivateAccessKeypadsResponse, Spec.Protocol.AddTaskResponse, Spec.Protocol.ClearTaskListResponse, Spec.Protocol.ClearTimeProfilesResponse, Spec.Protocol.DeleteCardResponse, Spec.Protocol.DeleteCardsResponse, Spec.Protocol.GetCardByIDResponse, Spec.Protocol.GetCardByIndexResponse, Spec.Protocol.GetCardsResponse, Spec.Protocol.GetDeviceResponse, Spec.Protocol.GetDoorControlStateResponse, Spec.Protocol.GetEventIndexResponse, Spec.Protocol.GetEventResponse, Spec.Protocol.GetListenerResponse, Spec.Protocol.GetStatusResponse, Spec.Protocol.GetTimeProfileResponse, Spec.Protocol.GetTimeResponse, Spec.Protocol.OpenDoorResponse, Spec.Protocol.PutCardResponse, Spec.Protocol.RecordSpecialEventsResponse, Spec.Protocol.RefreshTaskListResponse, Spec.Protocol.RestoreDefaultParametersResponse, Spec.Protocol.SetDoorControlStateResponse, Spec.Protocol.SetDoorPasscodesResponse, Spec.Protocol.SetEventIndexResponse, Spec.Protocol.SetFirstCardResponse, Spec.Protocol.SetInterlockResponse, Spec.Protocol.SetListenerResponse, Spec.Protocol.SetPCControlResponse, Spec.Protocol.SetTimeProfileResponse, Spec.Protocol.SetTimeResponse] at hlen
     rcases r with _ | ⟨x0, _ | ⟨x1, _ | ⟨x2, _ | ⟨y, r⟩⟩⟩⟩ <;> simp at hlen
-    simp [List.lookup, Spec.Api.get, Spec.Api.succeeded, Spec.Api.card, okBool, cardResult, Spec.Api.simple, C01.v_val, Layout.names, Field.names, statusResult, Spec.Api.status, Spec.Protocol.ActivateAccessKeypadsResponse, Spec.Protocol.AddTaskResponse, Spec.Protocol.ClearTaskListResponse, Spec.Protocol.ClearTimeProfilesResponse, Spec.Protocol.DeleteCardResponse, Spec.Protocol.DeleteCardsResponse, Spec.Protocol.GetCardByIDResponse, Spec.Protocol.GetCardByIndexResponse, Spec.Protocol.GetCardsResponse, Spec.Protocol.GetDeviceResponse, Spec.Protocol.GetDoorControlStateResponse, Spec.Protocol.GetEventIndexResponse, Spec.Protocol.GetEventResponse, Spec.Protocol.GetListenerResponse, Spec.Protocol.GetStatusResponse, Spec.Protocol.GetTimeProfileResponse, Spec.Protocol.GetTimeResponse, Spec.Protocol.OpenDoorResponse, Spec.Protocol.PutCardResponse, Spec.Protocol.RecordSpecialEventsResponse, Spec.Protocol.RefreshTaskListResponse, Spec.Protocol.RestoreDefaultParametersResponse, Spec.Protocol.SetDoorControlStateResponse, Spec.Protocol.SetDoorPasscodesResponse, Spec.Protocol.SetEventIndexResponse, Spec.Protocol.SetFirstCardResponse, Spec.Protocol.SetInterlockResponse, Spec.Protocol.SetListenerResponse, Spec.Protocol.SetPCControlResponse, Spec.Protocol.SetTimeProfileResponse, Spec.Protocol.SetTimeResponse]
+    simp [List.lookup, Spec.Api.get, Spec.Api.succeeded, Spec.Api.card, okBool, cardResult, Spec.Api.simple, C01.v_val, Layout.names, Field.names, statusResult, statusEventOf, statusNoEvent, Spec.Api.status, Spec.Protocol.ActivateAccessKeypadsResponse, Spec.Protocol.AddTaskResponse, Spec.Protocol.ClearTaskListResponse, Spec.Protocol.ClearTimeProfilesResponse, Spec.Protocol.DeleteCardResponse, Spec.Protocol.DeleteCardsResponse, Spec.Protocol.GetCardByIDResponse, Spec.Protocol.GetCardByIndexResponse, Spec.Protocol.GetCardsResponse, Spec.Protocol.GetDeviceResponse, Spec.Protocol.GetDoorControlStateResponse, Spec.Protocol.GetEventIndexResponse, Spec.Protocol.GetEventResponse, Spec.Protocol.GetListenerResponse, Spec.Protocol.GetStatusResponse, Spec.Protocol.GetTimeProfileResponse, Spec.Protocol.GetTimeResponse, Spec.Protocol.OpenDoorResponse, Spec.Protocol.PutCardResponse, Spec.Protocol.RecordSpecialEventsResponse, Spec.Protocol.RefreshTaskListResponse, Spec.Protocol.RestoreDefaultParametersResponse, Spec.Protocol.SetDoorControlStateResponse, Spec.Protocol.SetDoorPasscodesResponse, Spec.Protocol.SetEventIndexResponse, Spec.Protocol.SetFirstCardResponse, Spec.Protocol.SetInterlockResponse, Spec.Protocol.SetListenerResponse, Spec.Protocol.SetPCControlResponse, Spec.Protocol.SetTimeProfileResponse, Spec.Protocol.SetTimeResponse]
   · refine ⟨_, rfl, ?_⟩
     intro args r hlen hsys
     simp only [Layout.names, Field.names, List.flatMap_cons, List.flatMap_nil, List.append_nil, List.cons_append, List.nil_append, List.length_cons, List.length_nil, Spec.Protocol.ActivateAccessKeypadsResponse, Spec.Protocol.AddTaskResponse, Spec.Protocol.ClearTaskListResponse, Spec.Protocol.ClearTimeProfilesResponse, Spec.Protocol.DeleteCardResponse, Spec.Protocol.DeleteCardsResponse, Spec.Protocol.GetCardByIDResponse, Spec.Protocol.GetCardByIndexResponse, Spec.Protocol.GetCardsResponse, Spec.Protocol.GetDeviceResponse, Spec.Protocol.GetDoorControlStateResponse, Spec.Protocol.GetEventIndexResponse, Spec.Protocol.GetEventResponse, Spec.Protocol.GetListenerResponse, Spec.Protocol.GetStatusResponse, Spec.Protocol.GetTimeProfileResponse, Spec.Protocol.GetTimeResponse, Spec.Protocol.OpenDoorResponse, Spec.Protocol.PutCardResponse, Spec.Protocol.RecordSpecialEventsResponse, Spec.Protocol.RefreshTaskListResponse, Spec.Protocol.RestoreDefaultParametersResponse, Spec.Protocol.SetDoorControlStateResponse, Spec.Protocol.SetDoorPasscodesResponse, Spec.Protocol.SetEventIndexResponse, Spec.Protocol.SetFirstCardResponse, Spec.Protocol.SetInterlockResponse, Spec.Protocol.SetListenerResponse, Spec.Protocol.SetPCControlResponse, Spec.Protocol.SetTimeProfileResponse, Spec.Protocol.SetTimeResponse] at hlen
     rcases r with _ | ⟨x0, _ | ⟨x1, _ | ⟨x2, _ | ⟨y, r⟩⟩⟩⟩ <;> simp at hlen
-    simp [List.lookup, Spec.Api.get, Spec.Api.succeeded, Spec.Api.card, okBool, cardResult, Spec.Api.simple, C01.v_val, Layout.names, Field.names, statusResult, Spec.Api.status, Spec.Protocol.ActivateAccessKeypadsResponse, Spec.Protocol.AddTaskResponse, Spec.Protocol.ClearTaskListResponse, Spec.Protocol.ClearTimeProfilesResponse, Spec.Protocol.DeleteCardResponse, Spec.Protocol.DeleteCardsResponse, Spec.Protocol.GetCardByIDResponse, Spec.Protocol.GetCardByIndexResponse, Spec.Protocol.GetCardsResponse, Spec.Protocol.GetDeviceResponse, Spec.Protocol.GetDoorControlStateResponse, Spec.Protocol.GetEventIndexResponse, Spec.Protocol.GetEventResponse, Spec.Protocol.GetListenerResponse, Spec.Protocol.GetStatusResponse, Spec.Protocol.GetTimeProfileResponse, Spec.Protocol.GetTimeResponse, Spec.Protocol.OpenDoorResponse, Spec.Protocol.PutCardResponse, Spec.Protocol.RecordSpecialEventsResponse, Spec.Protocol.RefreshTaskListResponse, Spec.Protocol.RestoreDefaultParametersResponse, Spec.Protocol.SetDoorControlStateResponse, Spec.Protocol.SetDoorPasscodesResponse, Spec.Protocol.SetEventIndexResponse, Spec.Protocol.SetFirstCardResponse, Spec.Protocol.SetInterlockResponse, Spec.Protocol.SetListenerResponse, Spec.Protocol.SetPCControlResponse, Spec.Protocol.SetTimeProfileResponse, Spec.Protocol.SetTimeResponse]
+    simp [List.lookup, Spec.Api.get, Spec.Api.succeeded, Spec.Api.card, okBool, cardResult, Spec.Api.simple, C01.v_val, Layout.names, Field.names, statusResult, statusEventOf, statusNoEvent, Spec.Api.status, Spec.Protocol.ActivateAccessKeypadsResponse, Spec.Protocol.AddTaskResponse, Spec.Protocol.ClearTaskListResponse, Spec.Protocol.ClearTimeProfilesResponse, Spec.Protocol.DeleteCardResponse, Spec.Protocol.DeleteCardsResponse, Spec.Protocol.GetCardByIDResponse, Spec.Protocol.GetCardByIndexResponse, Spec.Protocol.GetCardsResponse, Spec.Protocol.GetDeviceResponse, Spec.Protocol.GetDoorControlStateResponse, Spec.Protocol.GetEventIndexResponse, Spec.Protocol.GetEventResponse, Spec.Protocol.GetListenerResponse, Spec.Protocol.GetStatusResponse, Spec.Protocol.GetTimeProfileResponse, Spec.Protocol.GetTimeResponse, Spec.Protocol.OpenDoorResponse, Spec.Protocol.PutCardResponse, Spec.Protocol.RecordSpecialEventsResponse, Spec.Protocol.RefreshTaskListResponse, Spec.Protocol.RestoreDefaultParametersResponse, Spec.Protocol.SetDoorControlStateResponse, Spec.Protocol.SetDoorPasscodesResponse, Spec.Protocol.SetEventIndexResponse, Spec.Protocol.SetFirstCardResponse, Spec.Protocol.SetInterlockResponse, Spec.Protocol.SetListenerResponse, Spec.Protocol.SetPCControlResponse, Spec.Protocol.SetTimeProfileResponse, Spec.Protocol.SetTimeResponse]
   · refine ⟨_, rfl, ?_⟩
     intro args r hlen hsys
     simp only [Layout.names, Field.names, List.flatMap_cons, List.flatMap_nil, List.append_nil, List.cons_append, List.nil_append, List.length_cons, List.length_nil, Spec.Protocol.ActivateAccessKeypadsResponse, Spec.Protocol.AddTaskResponse, Spec.Protocol.ClearTaskListResponse, Spec.Protocol.ClearTimeProfilesResponse, Spec.Protocol.DeleteCardResponse, Spec.Protocol.DeleteCardsResponse, Spec.Protocol.GetCardByIDResponse, Spec.Protocol.GetCardByIndexResponse, Spec.Protocol.GetCardsResponse, Spec.Protocol.GetDeviceResponse, Spec.Protocol.GetDoorControlStateResponse, Spec.Protocol.GetEventIndexResponse, Spec.Protocol.GetEventResponse, Spec.Protocol.GetListenerResponse, Spec.Protocol.GetStatusResponse, Spec.Protocol.GetTimeProfileResponse, Spec.Protocol.GetTimeResponse, Spec.Protocol.OpenDoorResponse, Spec.Protocol.PutCardResponse, Spec.Protocol.RecordSpecialEventsResponse, Spec.Protocol.RefreshTaskListResponse, Spec.Protocol.RestoreDefaultParametersResponse, Spec.Protocol.SetDoorControlStateResponse, Spec.Protocol.SetDoorPasscodesResponse, Spec.Protocol.SetEventIndexResponse, Spec.Protocol.SetFirstCardResponse, Spec.Protocol.SetInterlockResponse, Spec.Protocol.SetListenerResponse, Spec.Protocol.SetPCControlResponse, Spec.Protocol.SetTimeProfileResponse, Spec.Protocol.SetTimeResponse] at hlen
     rcases r with _ | ⟨x0, _ | ⟨x1, _ | ⟨x2, _ | ⟨y, r⟩⟩⟩⟩ <;> simp at hlen
-    simp [List.lookup, Spec.Api.get, Spec.Api.succeeded, Spec.Api.card, okBool, cardResult, Spec.Api.simple, C01.v_val, Layout.names, Field.names, statusResult, Spec.Api.status, Spec.Protocol.ActivateAccessKeypadsResponse, Spec.Protocol.AddTaskResponse, Spec.Protocol.ClearTaskListResponse, Spec.Protocol.ClearTimeProfilesResponse, Spec.Protocol.DeleteCardResponse, Spec.Protocol.DeleteCardsResponse, Spec.Protocol.GetCardByIDResponse, Spec.Protocol.GetCardByIndexResponse, Spec.Protocol.GetCardsResponse, Spec.Protocol.GetDeviceResponse, Spec.Protocol.GetDoorControlStateResponse, Spec.Protocol.GetEventIndexResponse, Spec.Protocol.GetEventResponse, Spec.Protocol.GetListenerResponse, Spec.Protocol.GetStatusResponse, Spec.Protocol.GetTimeProfileResponse, Spec.Protocol.GetTimeResponse, Spec.Protocol.OpenDoorResponse, Spec.Protocol.PutCardResponse, Spec.Protocol.RecordSpecialEventsResponse, Spec.Protocol.RefreshTaskListResponse, Spec.Protocol.RestoreDefaultParametersResponse, Spec.Protocol.SetDoorControlStateResponse, Spec.Protocol.SetDoorPasscodesResponse, Spec.Protocol.SetEventIndexResponse, Spec.Protocol.SetFirstCardResponse, Spec.Protocol.SetInterlockResponse, Spec.Protocol.SetListenerResponse, Spec.Protocol.SetPCControlResponse, Spec.Protocol.SetTimeProfileResponse, Spec.Protocol.SetTimeResponse]
+    simp [List.lookup, Spec.Api.get, Spec.Api.succeeded, Spec.Api.card, okBool, cardResult, Spec.Api.simple, C01.v_val, Layout.names, Field.names, statusResult, statusEventOf, statusNoEvent, Spec.Api.status, Spec.Protocol.ActivateAccessKeypadsResponse, Spec.Protocol.AddTaskResponse, Spec.Protocol.ClearTaskListResponse, Spec.Protocol.ClearTimeProfilesResponse, Spec.Protocol.DeleteCardResponse, Spec.Protocol.DeleteCardsResponse, Spec.Protocol.GetCardByIDResponse, Spec.Protocol.GetCardByIndexResponse, Spec.Protocol.GetCardsResponse, Spec.Protocol.GetDeviceResponse, Spec.Protocol.GetDoorControlStateResponse, Spec.Protocol.GetEventIndexResponse, Spec.Protocol.GetEventResponse, Spec.Protocol.GetListenerResponse, Spec.Protocol.GetStatusResponse, Spec.Protocol.GetTimeProfileResponse, Spec.Protocol.GetTimeResponse, Spec.Protocol.OpenDoorResponse, Spec.Protocol.PutCardResponse, Spec.Protocol.RecordSpecialEventsResponse, Spec.Protocol.RefreshTaskListResponse, Spec.Protocol.RestoreDefaultParametersResponse, Spec.Protocol.SetDoorControlStateResponse, Spec.Protocol.SetDoorPasscodesResponse, Spec.Protocol.SetEventIndexResponse, Spec.Protocol.SetFirstCardResponse, Spec.Protocol.SetInterlockResponse, Spec.Protocol.SetListenerResponse, Spec.Protocol.SetPCControlResponse, Spec.Protocol.SetTimeProfileResponse, Spec.Protocol.SetTimeResponse]
   · refine ⟨_, rfl, ?_⟩
     intro args r hlen hsys
     simp only [Layout.names, Field.names, List.flatMap_cons, List.flatMap_nil, List.append_nil, List.cons_append, List.nil_append, List.length_cons, List.length_nil, Spec.Protocol.ActivateAccessKeypadsResponse, Spec.Protocol.AddTaskResponse, Spec.Protocol.ClearTaskListResponse, Spec.Protocol.ClearTimeProfilesResponse, Spec.Protocol.DeleteCardResponse, Spec.Protocol.DeleteCardsResponse, Spec.Protocol.GetCardByIDResponse, Spec.Protocol.GetCardByIndexResponse, Spec.Protocol.GetCardsResponse, Spec.Protocol.GetDeviceResponse, Spec.Protocol.GetDoorControlStateResponse, Spec.Protocol.GetEventIndexResponse, Spec.Protocol.GetEventResponse, Spec.Protocol.GetListenerResponse, Spec.Protocol.GetStatusResponse, Spec.Protocol.GetTimeProfileResponse, Spec.Protocol.GetTimeResponse, Spec.Protocol.OpenDoorResponse, Spec.Protocol.PutCardResponse, Spec.Protocol.RecordSpecialEventsResponse, Spec.Protocol.RefreshTaskListResponse, Spec.Protocol.RestoreDefaultParametersResponse, Spec.Protocol.SetDoorControlStateResponse, Spec.Protocol.SetDoorPasscodesResponse, Spec.Protocol.SetEventIndexResponse, Spec.Protocol.SetFirstCardResponse, Spec.Protocol.SetInterlockResponse, Spec.Protocol.SetListenerResponse, Spec.Protocol.SetPCControlResponse, Spec.Protocol.SetTimeProfileResponse, Spec.Protocol.SetTimeResponse] at hlen
     rcases r with _ | ⟨x0, _ | ⟨x1, _ | ⟨x2, _ | ⟨y, r⟩⟩⟩⟩ <;> simp at hlen
-    simp [List.lookup, Spec.Api.get, Spec.Api.succeeded, Spec.Api.card, okBool, cardResult, Spec.Api.simple, C01.v_val, Layout.names, Field.names, statusResult, Spec.Api.status, Spec.Protocol.ActivateAccessKeypadsResponse, Spec.Protocol.AddTaskResponse, Spec.Protocol.ClearTaskListResponse, Spec.Protocol.ClearTimeProfilesResponse, Spec.Protocol.DeleteCardResponse, Spec.Protocol.DeleteCardsResponse, Spec.Protocol.GetCardByIDResponse, Spec.Protocol.GetCardByIndexResponse, Spec.Protocol.GetCardsResponse, Spec.Protocol.GetDeviceResponse, Spec.Protocol.GetDoorControlStateResponse, Spec.Protocol.GetEventIndexResponse, Spec.Protocol.GetEventResponse, Spec.Protocol.GetListenerResponse, Spec.Protocol.GetStatusResponse, Spec.Protocol.GetTimeProfileResponse, Spec.Protocol.GetTimeResponse, Spec.Protocol.OpenDoorResponse, Spec.Protocol.PutCardResponse, Spec.Protocol.RecordSpecialEventsResponse, Spec.Protocol.RefreshTaskListResponse, Spec.Protocol.RestoreDefaultParametersResponse, Spec.Protocol.SetDoorControlStateResponse, Spec.Protocol.SetDoorPasscodesResponse, Spec.Protocol.SetEventIndexResponse, Spec.Protocol.SetFirstCardResponse, Spec.Protocol.SetInterlockResponse, Spec.Protocol.SetListenerResponse, Spec.Protocol.SetPCControlResponse, Spec.Protocol.SetTimeProfileResponse, Spec.Protocol.SetTimeResponse]
+    simp [List.lookup, Spec.Api.get, Spec.Api.succeeded, Spec.Api.card, okBool, cardResult, Spec.Api.simple, C01.v_val, Layout.names, Field.names, statusResult, statusEventOf, statusNoEvent, Spec.Api.status, Spec.Protocol.ActivateAccessKeypadsResponse, Spec.Protocol.AddTaskResponse, Spec.Protocol.ClearTaskListResponse, Spec.Protocol.ClearTimeProfilesResponse, Spec.Protocol.DeleteCardResponse, Spec.Protocol.DeleteCardsResponse, Spec.Protocol.GetCardByIDResponse, Spec.Protocol.GetCardByIndexResponse, Spec.Protocol.GetCardsResponse, Spec.Protocol.GetDeviceResponse, Spec.Protocol.GetDoorControlStateResponse, Spec.Protocol.GetEventIndexResponse, Spec.Protocol.GetEventResponse, Spec.Protocol.GetListenerResponse, Spec.Protocol.GetStatusResponse, Spec.Protocol.GetTimeProfileResponse, Spec.Protocol.GetTimeResponse, Spec.Protocol.OpenDoorResponse, Spec.Protocol.PutCardResponse, Spec.Protocol.RecordSpecialEventsResponse, Spec.Protocol.RefreshTaskListResponse, Spec.Protocol.RestoreDefaultParametersResponse, Spec.Protocol.SetDoorControlStateResponse, Spec.Protocol.SetDoorPasscodesResponse, Spec.Protocol.SetEventIndexResponse, Spec.Protocol.SetFirstCardResponse, Spec.Protocol.SetInterlockResponse, Spec.Protocol.SetListenerResponse, Spec.Protocol.SetPCControlResponse, Spec.Protocol.SetTimeProfileResponse, Spec.Protocol.SetTimeResponse]
 
 /-! ### the reply interpretation against the sources
 
@@ -481,6 +482,35 @@ theorem C02_results_regenerated : ∀ e ∈ Gen.Ops.results, (findOp e.1).isSome
        subst hn
        by_cases h0 : n = 0 <;> by_cases hf : n = u8? (arg args 1) <;> simp [h0, hf]
        done)
+
+/-- … and the status mapping (`statusResult`: GetStatus, and through `Model.Events.classify` the listener)
+    is, for EVERY value list, the one translated from the two places of the sources that build a
+    `types.Status` — which reply field goes where, the system date-time closure (its body has the one
+    shape `sysDateTime` models), the event part filled exactly when the event index is non-zero -/
+theorem ev_eq (r : List Val) (xs : List Val)
+    (hxs : xs = [r.getD 2 .none_, r.getD 3 .none_, r.getD 4 .none_, r.getD 5 .none_, r.getD 6 .none_, r.getD 7 .none_,
+      r.getD 8 .none_, r.getD 9 .none_]) :
+    (if (r.getD 2 .none_ != .u32 0) = true then xs else statusNoEvent) = statusEventOf r := by
+  show _ = (match r.getD 2 .none_ with
+    | .u32 0 => statusNoEvent
+    | _ => [r.getD 2 .none_, r.getD 3 .none_, r.getD 4 .none_, r.getD 5 .none_, r.getD 6 .none_, r.getD 7 .none_,
+        r.getD 8 .none_, r.getD 9 .none_])
+  by_cases h : r.getD 2 .none_ = .u32 0
+  · rw [h]
+    rfl
+  · have hne : (r.getD 2 .none_ != Val.u32 0) = true := by simpa [bne_iff_ne] using h
+    rw [if_pos hne, hxs]
+    split
+    · rename_i h0; exact absurd h0 h
+    · rfl
+
+theorem C02_status_regenerated (r : List Val) :
+    Gen.Status.getStatus r = statusResult r ∧ Gen.Status.listenStatus r = statusResult r := by
+  constructor
+  · unfold Gen.Status.getStatus statusResult
+    rw [ev_eq r _ rfl]
+  · unfold Gen.Status.listenStatus statusResult
+    rw [ev_eq r _ rfl]
 
 /-- the hypothesis is satisfiable (a decoded GetEvent reply; a GetCardByID call) -/
 example : WellTyped "GetEvent" [] [.u8 0, .u32 1, .u32 5, .u8 1, .bool true, .u8 1, .u8 1, .u32 7, .dateTime none, .u8 0] := by
